@@ -12,2078 +12,1876 @@ Definition show_fres (r : fres) : string :=
   end.
 Definition check (rs : list rune) : string := digest (show_fres (format_res rs)).
 Definition full (rs : list rune) : string := show_fres (format_res rs).
-Eval vm_compute in ("<<<M3648>>>" ++ check (runes_of_ascii "options {
-    ArrayPrefixLenType = u16;
-    FixedStringPadFromLeft = true;
-    JavaPackage = ""com.example.msg"";
-    GoPackage = ""msg"";
-    GoModule = ""example.com/msg"";
-}
-MetaData Meta {
-    u32 SeqNum `sequence number`,
-    char[8] Symbol `symbol`,
-    zchar[5] ZSym `z symbol`,
-    string Note,
-    Symbol AltSymbol `alias of symbol`,
-    f64 Price,
-}
-packet Inner {
-    u8 a,
-    i16 b,
-    string c,
-}
-packet Inner2 {
-    u8 a2,
-    char[3] c2,
-}
-packet Logon {
-    u8 x,
-    string user,
-    repeat u16 codes,
-}
-packet Logout {
-    u16 reason,
-}
-packet Empty {
-}
-root packet Msg {
-    u8 su8,
-    uint8 luint8,
-    u16 su16,
-    uint16 luint16,
-    u32 su32,
-    uint32 luint32,
-    u64 su64,
-    uint64 luint64,
-    i8 si8,
-    int8 lint8,
-    i16 si16,
-    int16 lint16,
-    i32 si32,
-    int32 lint32,
-    i64 si64,
-    int64 lint64,
-    f32 sf32,
-    float32 lfloat32,
-    f64 sf64,
-    float64 lfloat64,
-    char[6] fsplain,
-    @leftPad('0') char[4] fs0,
-    @rightPad('0') char[5] fs1,
-    @leftPad(' ') char[6] fs2,
-    @rightPad(' ') char[7] fs3,
-    @leftPad('\x00') char[8] fs4,
-    @rightPad('\x00') char[9] fs5,
-    @leftPad() char[10] fs6,
-    @rightPad() char[11] fs7,
-    zchar[7] fz,
-    @leftPad('0') zchar[3] fzl0,
-    string s1 `doc`,
-    char[] s2,
-    Inner,
-    Sub {
-        u8 q,
-        string w,
-        Deep {
-            u16 z,
-            repeat i32 zs,
-        },
-    },
-    repeat u8 ru8,
-    repeat u16 ru16,
-    repeat u32 ru32,
-    repeat u64 ru64,
-    repeat i8 ri8,
-    repeat i16 ri16,
-    repeat i32 ri32,
-    repeat i64 ri64,
-    repeat f32 rf32,
-    repeat f64 rf64,
-    repeat string rstr,
-    repeat char[] rstr2,
-    repeat char[3] rfs,
-    repeat zchar[3] rfz,
-    repeat Inner2,
-    repeat Grp {
-        u8 k,
-        char[2] v,
-    },
-    SeqNum,
-    SeqNum seq2,
-    repeat SeqNum seqs,
-    Symbol,
-    AltSymbol alt,
-    ZSym,
-    Note,
-    repeat Symbol syms,
-    Price px,
-    u16 MsgType,
-    u32 BodyLen @lengthOf(Body),
-    match MsgType as Body {
-        1 : Logon,
-        [2, 3] : Logout,
-        7 : Logon,
-        9 : Empty,
-    },
-    u32 Checksum @calculatedFrom(""CRC32""),
-}
-")).
-Eval vm_compute in ("<<<M271>>>" ++ check (runes_of_ascii "// " ++ [27880; 37322]%N ++ runes_of_ascii "
-options
-    {
-zchar // a // b
-= ""x y""
-; options1 = u16
-;} packet
-Pad{ Z9_@calculatedFrom(
-"""")`
-` , @tag( 42
-    ) //
-@tag( 00 ) @lengthOf( zchar	) match _x// packet A { u8 x, }
-as metadata	{
-007: As ""`tick`""// packet A { u8 x, }
-: lengthOf,255 :lengthOf ""a	b""
-// trailing space 
-// " ++ [27880; 37322]%N ++ runes_of_ascii "
-:
-Packet 255: a1
-    , // c
-[ 00 ,
-    0 , 10 ,	""a\\"" , ""it's"" ,
-10, 7	]
-: Foo , }
-    , match Header
-as  o{
-[// packet A { u8 x, }
-255 ]
-    : zchar ,0123456789 :leftPad
-    [	007	, 3 ] : leftPad , // c
-0: packetx
-, } , } MetaData
-    Pad { // packet A { u8 x, }
-} packet T
-    // packet A { u8 x, }
-    {
-    // " ++ [27880; 37322]%N ++ runes_of_ascii "
-    charz
-    @lengthOf(asx) `` , }
-packet
-matchKey
-{  @tag( 3
-) @calculatedFrom( ""a	b""
-/// triple
-// c
-)
-@calculatedFrom("""" ) pack	rootA
-    ,  repeat //	t
-leftPad `` , repeat uint32 Foo `u8 x,` , @calculatedFrom(
-""" ++ [233]%N ++ runes_of_ascii "t" ++ [233]%N ++ runes_of_ascii """) repeat char[ 65535 ] u , @lengthOf( _x )@lengthOf( u8x ) repeat zchar[ 0123456789 ] x
-, match i64_ // " ++ [27880; 37322]%N ++ runes_of_ascii "
-as falsey{ // trailing space 
-255 :
-f32a , ""{,}"" : x ,""\" ++ [233]%N ++ runes_of_ascii """	: matchKey
-,
-[	"""",
-    // trailing space 
-    ""{,}"" ,
-    10 , """ ++ [128512]%N ++ runes_of_ascii """
-// a // b
-// packet A { u8 x, }
-, ""a	b"", 0
-,
-""1"",65535
-]: len , ""\" ++ [233]%N ++ runes_of_ascii """ :
-    T
-, [ ""CRC32"" ,
-    // " ++ [128512]%N ++ runes_of_ascii " emoji
-    1 , ""// no comment""
-, 007,1 ,	""`tick`"", """ ++ [128512]%N ++ runes_of_ascii """
-]// packet A { u8 x, }
-: a1  },match
-x as
-As
-{
-    ""a	b"":	o , 007
-:MetaDataX  ,  [
-""a	b""
-]:
-falsey , ""// no comment""
-    : Z9_""packet"":
-    _x
-    // " ++ [128512]%N ++ runes_of_ascii " emoji
-    , },repeat rootA {	uint8 MetaDataX
-    @calculatedFrom(
-    ""abc""
-    ) ,
-    match // `tick` ""quote"" 'q'
-int as// a // b
-asx {	[10	,
-10 , ""`tick`""  , 00 , 4294967296 ]
-    :
-    o ,
-    ""CRC32"" :
-string_ , [ 0
-]
-:	roots 65535 :
-// " ++ [27880; 37322]%N ++ runes_of_ascii "
-// trailing space 
-_x //
-, ""it's"" : Pad, 4294967296 : Pad , }
-,	u16	chars
-`line1
-line2`
-, //x
-}
-    ,
-}")).
-Eval vm_compute in ("<<<M681>>>" ++ check (runes_of_ascii "options {	leftPad = false
-    ;
-Packet  =//	t
-int16 ;
-    // c
-    len = ' ' calculatedFrom =65535
-; } MetaData Header{  int32 Z9_ , f32
-zchar `u8 x,` , char[  10 // a // b
-]x , asx
-_x
-`two words`
-    /// triple
-    , zchar[ 1 ]calculatedFrom `it's` ,}
-// a // b
-//	t
-packet
-    o{
-    u msg_type
-// " ++ [27880; 37322]%N ++ runes_of_ascii "
-//
-,@leftPad( '0' ) repeat BodyLength u
-    `" ++ [233]%N ++ runes_of_ascii "` , @leftPad
-('0'// " ++ [27880; 37322]%N ++ runes_of_ascii "
-)@tag( 1 )zchar[ 1 ]i64_ @calculatedFrom( """ ++ [233]%N ++ runes_of_ascii "t" ++ [233]%N ++ runes_of_ascii """	)	`it's` , @lengthOf( x
-    )
-    @tag( 255  ) @tag(  7 )
-repeat zchar[ 10
-] chars
-`two words` ,	@lengthOf(	Foo )rootA `" ++ [233]%N ++ runes_of_ascii "`
-, } packet o {pack // " ++ [27880; 37322]%N ++ runes_of_ascii "
-{repeat i8	lengthOf
-    ,char int //	t
-`u8 x,` ,
-//	t
-// a // b
-i64 matchKey@lengthOf( x_y_z // @lengthOf(
-), }
-, zchar[ 007 ]
-//x
-// packet A { u8 x, }
-metadata`say ""hi""`  , @rightPad ( ' ' )
-    match //x
-MetaDataX
-    as
-x_y_z { 0 : roots , """" : chars
-    ,
-    """ ++ [28040; 24687]%N ++ runes_of_ascii """ : T , 0 :
-//x
-// a // b
-Foo
-//	t
-/// triple
-,
-    [ 0123456789, """ ++ [28040; 24687]%N ++ runes_of_ascii """ , 0 , """ ++ [233]%N ++ runes_of_ascii "t" ++ [233]%N ++ runes_of_ascii """ ,
-    10 , ""a	b""
-, """ ++ [233]%N ++ runes_of_ascii "t" ++ [233]%N ++ runes_of_ascii """ //	t
-,""" ++ [128512]%N ++ runes_of_ascii """
-]  :
-options1 0123456789  :u ,// " ++ [128512]%N ++ runes_of_ascii " emoji
-} , len @calculatedFrom(
-""a\""b""
-) // " ++ [27880; 37322]%N ++ runes_of_ascii "
-, @tag(42 )
-@lengthOf( x_y_z	)
-// a // b
-/// triple
-leftPad chars , //	t
-i8 options1
-@lengthOf(i64_
-    )	,
-repeat
-matchKey `
-` , o	@calculatedFrom( ""`tick`"" ) ,
-    @lengthOf( len ) len
-{match float as
-    rootA {
-[ ""x y""  , ""a\""b"" ,7 , """"
-, """ ++ [233]%N ++ runes_of_ascii "t" ++ [233]%N ++ runes_of_ascii """ , 4294967296
-    ,
-    ""abc"" , 65535
-]: float
-    , } ,	f32
-    Packet ,
-u16 a1	,	zchar[ 65535 ]
-stringy, } ,	} root packet
-    metadata // a // b
-{
-    @tag( 4294967296
-    ) // " ++ [27880; 37322]%N ++ runes_of_ascii "
-string	u8x
-    `a\` , }
-")).
-Eval vm_compute in ("<<<M783>>>" ++ check (runes_of_ascii "MetaData
-asx{ Packet i64_	, zchar[ 0 ] stringy ,
-A tag , }
-    options	{ } root packet
-//x
-// trailing space 
-metadata { repeat x_y_z matchKey , repeat char[]
-x_y_z
-    // packet A { u8 x, }
+Eval vm_compute in ("<<<M1350>>>" ++ check (runes_of_ascii "root packet Header
+{repeat
+zchar[
+10 ]charz `two words`
+    , repeat
+    u8 uint8x
+`" ++ [233]%N ++ runes_of_ascii "`
+    //	t
+    , T@calculatedFrom(
+""{,}"" )
+    `u8 x,` ,
+char[1	] trueish
+    @lengthOf( x_y_z )
     `crlf
-line`	, @lengthOf(	As )  char[]x_y_z ,
-@tag(  00)  @calculatedFrom(""" ++ [233]%N ++ runes_of_ascii "t" ++ [233]%N ++ runes_of_ascii """ )
-    u8	pack @calculatedFrom( ""CRC32"" ) , roots
-    // " ++ [27880; 37322]%N ++ runes_of_ascii "
-    repeatCount ,	uint8x /// triple
-`two words`,
-}  options { Z9_ // `tick` ""quote"" 'q'
-= string Z9_ =
-    0 string_= true ; // c
-crc =
-i64 ; } packet packetx {  @leftPad (
-'0' )// " ++ [128512]%N ++ runes_of_ascii " emoji
-@rightPad
-( '0' ) @lengthOf(
-stringy )
-char[]
-body `" ++ [28040; 24687; 31867; 22411]%N ++ runes_of_ascii "` , // " ++ [27880; 37322]%N ++ runes_of_ascii "
-match u as Foo
-    { // " ++ [27880; 37322]%N ++ runes_of_ascii "
-4294967296 :  Logon , } ,
-match
-stringy as BodyLength{  ""a\\"" :
-    chars 4294967296 : Packet,
-4294967296:	_x,255 :Foo , 1 : roots, }, @rightPad ( '0' ) //x
-match
-    // `tick` ""quote"" 'q'
-    u8x
-as f32a{
-[  ""x y"", // a // b
-""" ++ [128512]%N ++ runes_of_ascii """ ,
-    ""`tick`"" ] : calculatedFrom ,
-    ""a\""b""
-: packetx
-    // packet A { u8 x, }
-    ,	[
-    0 ]
-: /// triple
-As ,[ """ ++ [28040; 24687]%N ++ runes_of_ascii """
-] :
-    // `tick` ""quote"" 'q'
-    Z9_ } ,	@lengthOf(// a // b
-Logon	) match
-    chars as
-    len{[ 3 ,	""a\\""
-    //x
-    ]:string_[
-// `tick` ""quote"" 'q'
-// c
-""it's""  ,// c
-""a\\""	] : len ,
-    [ ""\n""	,
-3
-,""" ++ [28040; 24687]%N ++ runes_of_ascii """ ]
-: rootA , 10	: msg_type , }, char[]	chars@lengthOf( trueish )
-`
-` , //
-@tag( 0
-) repeat // " ++ [128512]%N ++ runes_of_ascii " emoji
-zchar[ 7 ] A	,  char[
-7 ] rootA  ,
-// " ++ [128512]%N ++ runes_of_ascii " emoji
-// c
-}")).
-Eval vm_compute in ("<<<M1189>>>" ++ check (runes_of_ascii "// " ++ [27880; 37322]%N ++ runes_of_ascii "
-packet a1
-    // " ++ [27880; 37322]%N ++ runes_of_ascii "
-    { @calculatedFrom( """ ++ [233]%N ++ runes_of_ascii "t" ++ [233]%N ++ runes_of_ascii """)Logon { options1
-falsey `// not a comment`, Z9_@calculatedFrom( ""packet"" ), int8
-    // trailing space 
-    Packet  `two words`
-// " ++ [128512]%N ++ runes_of_ascii " emoji
-// a // b
-,
-}
-, @tag(	007 )
-    char[] chars@lengthOf( Packet ) `crlf
-line` ,
-    match msg_type as Header { """ ++ [28040; 24687]%N ++ runes_of_ascii """ : _x //x
-}, repeat
-    //
-    u128  { Logon @calculatedFrom( ""it's"" ) `{ , }` , }
-// " ++ [128512]%N ++ runes_of_ascii " emoji
-// c
-,	int64
-calculatedFrom // c
-, repeat zchar[
-0
-    ] a1 `say ""hi""`
-    , match options1	as repeatCount
-{[
-    //x
-    ""1""
-, ""`tick`"" ,
-//
-// " ++ [128512]%N ++ runes_of_ascii " emoji
-10,
-""\" ++ [233]%N ++ runes_of_ascii """,0123456789 , ""a\""b"" ]
-    :pack,// @lengthOf(
-0123456789
-    // " ++ [128512]%N ++ runes_of_ascii " emoji
-    :
-    // packet A { u8 x, }
-    Logon
-, 255 :	x } ,
-@calculatedFrom( ""abc"" )@lengthOf(
-// packet A { u8 x, }
-// " ++ [128512]%N ++ runes_of_ascii " emoji
-x )
-    repeat
-Pad{ u8x
-{
-uint8	T @lengthOf(float )  ,match Header // `tick` ""quote"" 'q'
-as // a // b
-trueish { ""a	b"":
-    body//	t
-, }
-,int8 MetaDataX @calculatedFrom(
-    ""a	b"") ,	i8i8
-    Pad `" ++ [28040; 24687; 31867; 22411]%N ++ runes_of_ascii "`
-,} , repeat i8
-    //
-    A , // trailing space 
-}	,
-    uint32
-    x@lengthOf(
-Logon ) /// triple
-`two words`
-, } packet trueish { }MetaData
-    // @lengthOf(
-    msg_type
-    { } packet
-i8i8 {  @tag( 007)
-    //x
-    zchar[ 10
-    ] /// triple
-msg_type
-    , }
-")).
-Eval vm_compute in ("<<<M50>>>" ++ check (runes_of_ascii "//x
-packet Header
-    {
-    body
-// " ++ [27880; 37322]%N ++ runes_of_ascii "
-// " ++ [27880; 37322]%N ++ runes_of_ascii "
-@calculatedFrom(
-    ""CRC32"" )
-`it's` ,repeat
-int64//x
-msg_type // " ++ [128512]%N ++ runes_of_ascii " emoji
-,
-//	t
-//
-@tag( 0 ) zchar[ 0 //
-]
-    int
-//	t
-// @lengthOf(
-, }
-    // " ++ [128512]%N ++ runes_of_ascii " emoji
-    options { Packet=
-true
-    MetaDataX =
-""" ++ [28040; 24687]%N ++ runes_of_ascii """ A
-    = string} root packet	Logon {
-    @leftPad // " ++ [27880; 37322]%N ++ runes_of_ascii "
-('0' //x
-)Header//
-leftPad `doc` ,
-    f32a
-    {	rootA @lengthOf( calculatedFrom )	, int8
-Packet `line1
-line2` , } , repeat calculatedFrom
-    { // `tick` ""quote"" 'q'
-match
-packetx as len { 1:matchKey ,
-0123456789 :repeatCount ,
-""\" ++ [233]%N ++ runes_of_ascii """ :
-float , 255:
-    MetaDataX
-, },} ,
-//x
-// " ++ [27880; 37322]%N ++ runes_of_ascii "
-leftPad {  repeat roots{ //	t
-roots
-@calculatedFrom(/// triple
-""abc"" ),int32
-BodyLength @calculatedFrom( ""packet"" )
-,
-}	, match repeatCount as
-matchKey { ""abc"" : u128 , """ ++ [128512]%N ++ runes_of_ascii """ : a1
-, ""a\\""
-:rootA ,	[  3,3 ]// c
-:
-x_y_z	007 :Foo
-    } ,
-}
-, // c
-repeat rootA	matchKey	`it's` //	t
-,	a1
-    @calculatedFrom(""x y"" )  `line1
-line2` ,int	,
-    @tag(
-// trailing space 
-//x
-65535) match metadata as	As
-{ ""x y"": Foo	,//x
-[ // `tick` ""quote"" 'q'
-""x y"" ]:
-    tag
-//
-// a // b
-, 3
-    : pack } ,repeat int8 charz ,char[] body , }
-options {
-    MetaDataX = char[ 0 ] ; } // a // b")).
-Eval vm_compute in ("<<<M4322>>>" ++ check (runes_of_ascii "
-
-  // a // b
-
-  options {i64_ //
-	= false ;	BodyLength
-
-    =
-	10
-
-;
-}
-
-    packet
-msg_type	{ @lengthOf(
-msg_type)
-
-    match rootA
-    as
-tag {""1"":  // `tick` ""quote"" 'q'
-	  u8x ,
-
-[
-""x y"",	// " ++ [128512]%N ++ runes_of_ascii " emoji
-  """ ++ [233]%N ++ runes_of_ascii "t" ++ [233]%N ++ runes_of_ascii """
-
-,
-0123456789 ,
-    007 ,
-
-    7
-,
-
-    255
-, 7, 
-65535	] :
-matchKey
-
-    ,
-    4294967296
-:
-
-    chars
-""packet"" 
-:
-charz	, 
-""// no comment""
-:// a // b
-
-i64_ 
-,
-    10 :
-    MetaDataX 
-,}
-
-    ,@lengthOf(  metadata
-	)  MetaDataX @calculatedFrom(
-
-""" ++ [233]%N ++ runes_of_ascii "t" ++ [233]%N ++ runes_of_ascii """
-) 
-`
-`, f32a { matchKey ,
-
-    },	zchar[
-10
-]
-_x
-`line1
-line2` ,  metadata
-
-    crc
-
-,@lengthOf( body
-	)char[
-
-    3  ] string_
-
-,repeat
-
-T
-	, 
-trueish // @lengthOf(
-  	i8i8, f32 Header
-`
-`
-	,
-
-    @leftPad ( ' ' 
-)
-    char[	00
-
-] o
-,
-
-}packet 
-zchar
-
-{@lengthOf(
-Packet )
-
-@lengthOf(falsey	) 	 // " ++ [128512]%N ++ runes_of_ascii " emoji
-
-repeat rootA  `doc`
-,
-	@leftPad  // " ++ [128512]%N ++ runes_of_ascii " emoji
-    (
-' ' 
-
-    // @lengthOf(
-
-// @lengthOf(
-
-)  char[]float	@lengthOf(
-
-    roots
-),}
-
-root	packet//x
-      lengthOf {
-rootA // trailing space 
-    @calculatedFrom(
-    ""it's"" ) ,  }
-    root
-
-packet
-repeatCount  // a // b
-  	{ }
-")).
-Eval vm_compute in ("<<<M705>>>" ++ check (runes_of_ascii "packet
-As // trailing space 
-{
-match asx as Header {  10
-:Packet ""abc""	:u ,
-    42
-:Header , [ ""a	b"" ,
-    255,42
-    ] // trailing space 
-:  leftPad 00 : int  , [ ""x y"",
-7] : packetx
-    , } , repeat zchar[
-007
-]options1
-, body // @lengthOf(
-MetaDataX
-    // " ++ [27880; 37322]%N ++ runes_of_ascii "
-    ,
-    @leftPad
-()
-string x_y_z ,
-    @lengthOf(x )
-@rightPad	('0' )match
-    T as tag { ""CRC32""
-:
-    stringy  ,00://x
-packetx [
-    // `tick` ""quote"" 'q'
-    255	,""packet"" // a // b
-]: A
-    , [ 255 ,
-//x
-//	t
-1
-//	t
-// @lengthOf(
-,
-    // @lengthOf(
-    ""abc"" , 1
-// " ++ [27880; 37322]%N ++ runes_of_ascii "
-//	t
-,
-""1"" , """ ++ [233]%N ++ runes_of_ascii "t" ++ [233]%N ++ runes_of_ascii """ , 10 , // packet A { u8 x, }
-00] : i8i8
-    ""\n"" // a // b
-:
-_x,
-    } ,MetaDataX {match trueish as uint8x { 1
-:x , 3
-:
-    a1 , ""a\""b"" : u128 ,  },
-} , float64 calculatedFrom @calculatedFrom( """ ++ [28040; 24687]%N ++ runes_of_ascii """
-//	t
-//x
-) // c
-`u8 x,`	,u64
-    float @lengthOf( // " ++ [128512]%N ++ runes_of_ascii " emoji
-matchKey ), }options
-{ metadata
-= //x
-""{,}""//
-a1 =
-    u8 ;
-falsey=  1 ; _x =
-zchar[65535 ] Header =	' ' }
-    MetaData T {
-} MetaData Z9_{  string
-// " ++ [27880; 37322]%N ++ runes_of_ascii "
-//	t
-f32a
-,
-len zchar
-    ,
-    }
-")).
-Eval vm_compute in ("<<<M1297>>>" ++ check (runes_of_ascii "packet packetx{ stringy{ repeat  matchKey
-    { match
-    falsey as matchKey
-{ 0123456789 :
-float ,
-[
-""abc"" ] :u128
-// " ++ [27880; 37322]%N ++ runes_of_ascii "
-// " ++ [128512]%N ++ runes_of_ascii " emoji
-""x y"" :// " ++ [27880; 37322]%N ++ runes_of_ascii "
-i8i8 } , match  falsey as Foo { 65535// " ++ [128512]%N ++ runes_of_ascii " emoji
-:trueish,
-} ,
-    },  char[]  roots@calculatedFrom(
-    """ ++ [28040; 24687]%N ++ runes_of_ascii """), zchar[ 0123456789
-// " ++ [27880; 37322]%N ++ runes_of_ascii "
-// `tick` ""quote"" 'q'
-]i64_ ,	zchar[ 42 ] MetaDataX
-@lengthOf( len  )
-,  }
-, pack @lengthOf(  crc)//x
-, @tag( 65535 )
-    @leftPad	(
-) @lengthOf(
-    asx ) u8x {repeat uint64 Pad, x_y_z _x `
-`, }
-, MetaDataX stringy,
-    // trailing space 
-    @lengthOf( BodyLength ) string calculatedFrom
-@calculatedFrom(""\n"" )
-    `line1
-line2` , u32
-u8x , @tag(
-    007
-//
-// c
-)
-//
-//
-@lengthOf( // packet A { u8 x, }
-asx
-    ) repeat uint8x { match  float
-as // @lengthOf(
-As{ [ ""1"" ,"""" , 255
-,
-255 ,
-007 , ""1""// " ++ [27880; 37322]%N ++ runes_of_ascii "
-]
-: rootA""1""
-    : msg_type // c
-,
-65535: f32a , ""x y""
-:
-    //
-    leftPad}
-    , }
-    // trailing space 
-    , u8 asx `u8 x,`, len `it's`,}
-//x
-/// triple
-options {
-falsey =
-true }
-")).
-Eval vm_compute in ("<<<M735>>>" ++ check (runes_of_ascii "  root packet Packet{ @lengthOf( u128 ) match Foo
-    as metadata{[ """ ++ [28040; 24687]%N ++ runes_of_ascii """, ""a	b"" ] :Z9_ ""packet""
-: metadata	,[
-    0123456789 , 10 ,
-    // @lengthOf(
-    ""1"" , ""1""
-    /// triple
-    , 4294967296	,""it's"" ,
-    ""`tick`"" , ""{,}""]:
-As ,
-0 : repeatCount } , match rootA	as  zchar { 7
-    // `tick` ""quote"" 'q'
-    : // `tick` ""quote"" 'q'
-Logon
-    ,""a\\"" :
-body""" ++ [128512]%N ++ runes_of_ascii """
-: T// a // b
-, [ ""1""
-,
-""a\\"" , 65535
-    ,
-""" ++ [233]%N ++ runes_of_ascii "t" ++ [233]%N ++ runes_of_ascii """ ,	""x y"" // c
-, 3 // c
-]
-// a // b
-// trailing space 
-:
-/// triple
-// trailing space 
-len // trailing space 
-,""" ++ [128512]%N ++ runes_of_ascii """
-: o , }  ,  @lengthOf( options1 ) A @calculatedFrom(
-""a\""b"" )`" ++ [233]%N ++ runes_of_ascii "`
-, /// triple
-@rightPad
-    ( // c
-)  u64 i8i8 @calculatedFrom(""{,}"" ) `// not a comment`, repeat pack
-{ char[] MetaDataX
-, } , @lengthOf(
-// c
-// " ++ [128512]%N ++ runes_of_ascii " emoji
-roots ) // packet A { u8 x, }
-@lengthOf(	msg_type )
-@calculatedFrom( ""// no comment"" ) char[ 3 ]
-string_@lengthOf(
-    pack
-    ) // " ++ [27880; 37322]%N ++ runes_of_ascii "
-`doc` , }
-// `tick` ""quote"" 'q'
-")).
-Eval vm_compute in ("<<<M3810>>>" ++ check (runes_of_ascii "packet f32a {
-    // c
-    string len @lengthOf(As) `line1
-    line2`,
-    zchar[1] zchar `{ , }`,
-    tag @lengthOf(rootA),// c
-    string x_y_z `" ++ [28040; 24687; 31867; 22411]%N ++ runes_of_ascii "`,
-}
-
-packet crc {
-    BodyLength @lengthOf(msg_type),
-}
-
-MetaData packetx {
-}
-
-root packet lengthOf {
-    repeat uint32 zchar,// " ++ [27880; 37322]%N ++ runes_of_ascii "
-    T {
-        msg_type {
-            f32a {
-                charz stringy ``,
-                uint16 u128,
-                i16 BodyLength @lengthOf(x),
-                int8 metadata `tab	here`,
-            },
-            repeat Packet `doc`,// packet A { u8 x, }
-            int8 A @calculatedFrom(""CRC32""),
-        },
-        Pad asx,
-        char[0] repeatCount,
-    },
-    u16 Z9_ `" ++ [233]%N ++ runes_of_ascii "`,
-    @rightPad('\x00')
-    repeat Header `line1
-    line2`,
-    @calculatedFrom(""\" ++ [233]%N ++ runes_of_ascii """)
-    char[] rootA @calculatedFrom(""// no comment"") `doc`,// a // b
-    calculatedFrom `a\`,
-}
-
-packet As {
-}")).
-Eval vm_compute in ("<<<M795>>>" ++ check (runes_of_ascii "packet
-    roots { @calculatedFrom(
-    ""1"")
-repeat char f32a , zchar[
-// " ++ [128512]%N ++ runes_of_ascii " emoji
-// `tick` ""quote"" 'q'
-42
-/// triple
-// " ++ [128512]%N ++ runes_of_ascii " emoji
-] options1
-`
-` ,
-/// triple
-// " ++ [27880; 37322]%N ++ runes_of_ascii "
-@calculatedFrom( """ ++ [233]%N ++ runes_of_ascii "t" ++ [233]%N ++ runes_of_ascii """ ) float64 uint8x `say ""hi""`  , packetx
-    //	t
-    @lengthOf( BodyLength	)  `a\`  ,	@calculatedFrom( ""\" ++ [233]%N ++ runes_of_ascii """ ) chars u8x	`{ , }`
-, match _x as len {
-    42 : crc, 4294967296 // packet A { u8 x, }
-: uint8x ,  10 : BodyLength,
-    } //
-,@tag(0 )
-    // @lengthOf(
-    char[ 7] // trailing space 
-metadata,
-    /// triple
-    @tag( 4294967296
-)
-    match BodyLength
-as  chars { ""`tick`"":
+line` , repeat Pad
+    Foo ,
+    @lengthOf(  roots )repeat asx	,@rightPad
+( '0' ) @leftPad ('0' ) @leftPad('0'	) uint8  x @lengthOf( body) `crlf
+line` ,match body
+    as rootA {[ // " ++ [128512]%N ++ runes_of_ascii " emoji
+0 // " ++ [27880; 37322]%N ++ runes_of_ascii "
+, ""\n""] :
 x_y_z
-    , 42
-    //x
-    : x_y_z ,0123456789: x },
-char[
-7 ] rootA`" ++ [28040; 24687; 31867; 22411]%N ++ runes_of_ascii "` ,}
-    packet string_ { @calculatedFrom(
-    """ ++ [128512]%N ++ runes_of_ascii """)@lengthOf( f32a
-    // packet A { u8 x, }
-    ) @lengthOf( Pad ) repeat
-    //	t
-    pack i64_
-`line1
-line2`,	}
-")).
-Eval vm_compute in ("<<<M1134>>>" ++ check (runes_of_ascii "MetaData
-int
-    { u32 pack
-    , char f32a , trueish MetaDataX  `tab	here` /// triple
-, }options {  T=3 }
-    packet // trailing space 
-a1
-    { @calculatedFrom( ""1"" )
-uint8x
-Logon
-    ,
-    /// triple
-    @leftPad ( '0' ) char Header ,@lengthOf( packetx ) u64 zchar @calculatedFrom(""" ++ [128512]%N ++ runes_of_ascii """) `line1
-line2` , @tag( 007
-    ) @lengthOf( float )
-@tag(
-    0 ) repeat
-    uint8x { int16 // " ++ [27880; 37322]%N ++ runes_of_ascii "
-metadata
-@lengthOf( zchar
-)
-    , charz @calculatedFrom( //x
-""// no comment""  ), u8  int @lengthOf( crc
-) `
-` ,
-    }, @lengthOf(	zchar
-    )repeat leftPad falsey , i8i8 { string
-    T ``, } ,
-@rightPad ()// `tick` ""quote"" 'q'
-repeat
-o { uint64  metadata @lengthOf( pack
-    // " ++ [27880; 37322]%N ++ runes_of_ascii "
-    ) ,  },
-@leftPad
-(
-'\x00'
-    ) //
-repeat u128 leftPad // trailing space 
-,} options {  }
-")).
-Eval vm_compute in ("<<<M511>>>" ++ check (runes_of_ascii "
-MetaData BodyLength { // trailing space 
-zchar[ 10
-]trueish, }
-packet f32a
-    {@calculatedFrom(
-    ""a\\"" ) @tag( 3
-    )
-@leftPad ( '\x00'	)
-u128 { match u8x
-    as len
-    { [
-"""",
-0 ]
-: chars
-, 7
-    :rootA
-,}, // " ++ [128512]%N ++ runes_of_ascii " emoji
-match zchar as matchKey { 00 :
-repeatCount //	t
-,""a	b"":Logon ,
-[ """ ++ [233]%N ++ runes_of_ascii "t" ++ [233]%N ++ runes_of_ascii """
-, 00 ]:packetx} ,
-i64 tag,	}
-, @leftPad
-    ( '\x00'
-) char[] u128 `// not a comment` ,
-    float64 lengthOf @lengthOf( // " ++ [27880; 37322]%N ++ runes_of_ascii "
-charz ) , @leftPad
-(
-    '\x00'
-)As uint8x `crlf
-line`, }packet	uint8x { char[
-    255 ] calculatedFrom
-    , roots @lengthOf( a1
-) `tab	here`
-    // trailing space 
-    ,
-//
-/// triple
-@rightPad
-    (' ' )  repeat a1 a1, char
-crc , i16 a1 , } //x
-packet len{ //
-zchar a1 // trailing space 
-`u8 x,`,	}")).
-Eval vm_compute in ("<<<M27>>>" ++ check (runes_of_ascii "root packet Packet{ char[]
-    msg_type @calculatedFrom(""a\\"" ) , repeat
-    u16 a1
-`say ""hi""`
-,f32a
-stringy
-`u8 x,` ,
-    uint16 int	, @calculatedFrom( ""// no comment""
-) repeat
-// a // b
-// c
-u8 T, zchar[
+,
+    10
+    : packetx , 1 : BodyLength , """ ++ [233]%N ++ runes_of_ascii "t" ++ [233]%N ++ runes_of_ascii """ :zchar 3  :
+// `tick` ""quote"" 'q'
 // packet A { u8 x, }
-// " ++ [27880; 37322]%N ++ runes_of_ascii "
-65535
-//x
-//
-]  T , // `tick` ""quote"" 'q'
-repeat chars	{ char[] tag //x
-`" ++ [233]%N ++ runes_of_ascii "`,int64 A	@calculatedFrom(	""\n"" )`// not a comment`
-, match trueish as i8i8 {[ ""a\""b""]	: MetaDataX, } , len {zchar[ 65535 ]o
-    @lengthOf( body  ) `a\`//
-, string options1`two words`
-    , tag
-    // `tick` ""quote"" 'q'
-    { T `{ , }`
-    , charz
-    ,i8 // trailing space 
-uint8x ,} ,char[]packetx// @lengthOf(
-@lengthOf(// c
-roots ) ,} ,
-    }
-,//
-string  x, } // trailing space ")).
-Eval vm_compute in ("<<<M3599>>>" ++ check (runes_of_ascii "// top
-packet
-    // c0
-MDSnapshotZZ // c1a
-  // c1b
-{ // c2
-u8 // c3a
-  // c3b
-a
-    // c4
-, // c5
-} packet // c7
-OrderACK
-    // c8
-{
-    // c9
-u16 // c10
-b // c11
-, }
-    // c13
-packet // c14
-HTTPServerInfo // c15a
-  // c15b
-{ // c16a
-  // c16b
-string // c17a
-  // c17b
-s // c18
-, } // c20
-root packet
-    // c22
-FIXMsg
-    // c23
-{ // c24a
-  // c24b
-u8 // c25a
-  // c25b
-KType
-    // c26
-, // c27
-MDSnapshotZZ // c28
-, repeat
-    // c30
-OrderACK // c31a
-  // c31b
-, // c32a
-  // c32b
-match KType as Body
-    // c36
-{ // c37a
-  // c37b
-1 // c38
-: // c39
-HTTPServerInfo , 2 : // c43a
-  // c43b
-OrderACK
-    // c44
-, // c45
-} // c46
-,
-    // c47
-} // c48
-")).
-Eval vm_compute in ("<<<M405>>>" ++ check (runes_of_ascii "options { options1 =
-0 } packet _x { @tag( 3
-    // trailing space 
-    )
-@lengthOf( packetx
-)repeat
-    zchar[ 255] roots,}	packet  Logon{ f64
-float ,
-matchKey	,
-    f32a//
-Pad
-    `" ++ [233]%N ++ runes_of_ascii "` ,
-    // `tick` ""quote"" 'q'
-    @calculatedFrom( ""packet"" ) match u128 as
-Pad{
-    [// " ++ [27880; 37322]%N ++ runes_of_ascii "
-00 ,""CRC32"" ]
-    : msg_type
-65535
-:	stringy , [
-""abc"" //	t
-,00, """ ++ [233]%N ++ runes_of_ascii "t" ++ [233]%N ++ runes_of_ascii """ , ""// no comment""
-    , // trailing space 
-0
-,""// no comment""
-    , ""1"" ]
-    : matchKey [ ""it's"" ,0] : A } , zchar[ 3] //x
-uint8x , } options { _x = ' ' rootA = //x
-char[] uint8x= //	t
-""a	b"" ;
-body= char[]
-    // trailing space 
-    }
-    root
-packet
-    len  { }
-")).
-Eval vm_compute in ("<<<M3584>>>" ++ check (runes_of_ascii "// top
-packet // c0a
-  // c0b
-A { // c2
-u8 // c3a
-  // c3b
-a , } // c6a
-  // c6b
-packet // c7a
-  // c7b
-B // c8
-{ // c9a
-  // c9b
-u16
-    // c10
-b // c11a
-  // c11b
-, // c12a
-  // c12b
-}
-    // c13
-root // c14a
-  // c14b
-packet // c15
-P
-    // c16
-{
-    // c17
-u8 // c18
-K // c19
-, // c20a
-  // c20b
-match
-    // c21
-K
-    // c22
-as // c23a
-  // c23b
-M // c24
-{ // c25
-[
-    // c26
-1 // c27a
-  // c27b
-, // c28
-2
-    // c29
-]
-    // c30
-: A // c32a
-  // c32b
-, // c33a
-  // c33b
-3 :
-    // c35
-B , // c37a
-  // c37b
-7 // c38a
-  // c38b
-: // c39a
-  // c39b
-A
-    // c40
-, } , } // c44a
-  // c44b
-")).
-Eval vm_compute in ("<<<M3578>>>" ++ check (runes_of_ascii "// top
-packet // c0a
-  // c0b
-A // c1a
-  // c1b
-{ // c2
-u8 a // c4a
-  // c4b
-, // c5a
-  // c5b
-} packet
-    // c7
-B // c8a
-  // c8b
-{ // c9a
-  // c9b
-u16 // c10a
-  // c10b
-b
-    // c11
-,
-    // c12
-} // c13
-root // c14
-packet // c15a
-  // c15b
-P { // c17
-u8 // c18a
-  // c18b
-K1 , // c20a
-  // c20b
-u8 // c21
-K2 , // c23
-match K1
-    // c25
-as M1 // c27
-{ // c28a
-  // c28b
-1 // c29a
-  // c29b
-:
-    // c30
-A // c31a
-  // c31b
-, // c32a
-  // c32b
-} , match // c35
-K2 as
-    // c37
-M2
-    // c38
-{ 1 // c40a
-  // c40b
-:
-    // c41
-B , } // c44
-,
-    // c45
-}
-    // c46
-")).
-Eval vm_compute in ("<<<M485>>>" ++ check (runes_of_ascii "packet	options1 { // " ++ [27880; 37322]%N ++ runes_of_ascii "
-string
-    stringy @lengthOf( u8x// trailing space 
-)	`it's` ,  zchar[ 7] // a // b
-Packet`tab	here` ,char[]  leftPad `" ++ [28040; 24687; 31867; 22411]%N ++ runes_of_ascii "` , f32 packetx
-`a\`
-    ,  char[]
-    //	t
-    len,
-    metadata // trailing space 
-{ float32 Pad @lengthOf(tag),
-repeat string_ lengthOf`crlf
-line`,
-// `tick` ""quote"" 'q'
-/// triple
-} , @lengthOf(	asx ) char[]trueish @lengthOf(
-Header ) `tab	here`  , @leftPad( '0'
-    )char[] Foo,zchar[10
-    ]packetx
-, repeat leftPad `u8 x,` ,
-    }
-    packet pack
-{
-    } options {
-    //
-    }
-")).
-Eval vm_compute in ("<<<M802>>>" ++ check (runes_of_ascii "packet Logon // `tick` ""quote"" 'q'
-{
-    @rightPad
-()
-repeat
-Z9_ , match i64_
-//x
-// @lengthOf(
-as len { 65535
-// " ++ [27880; 37322]%N ++ runes_of_ascii "
-// @lengthOf(
-:
-    MetaDataX
-, """ ++ [128512]%N ++ runes_of_ascii """: u128 , """ ++ [28040; 24687]%N ++ runes_of_ascii """ :lengthOf
-""a	b"" : o , [
-    255 // c
-]  : As , [""\n""] :
-// @lengthOf(
-// trailing space 
-o, } ,	@tag(
-//	t
-// trailing space 
-42)
-@tag( 1 ) //	t
-string_ @calculatedFrom( ""1"" ) ,
-    } root packet
-matchKey
-{ repeat u32
-MetaDataX ,
-    float32
-As	@lengthOf(
-charz	),
-a1 repeatCount `
-`	, } packet
-    msg_type
-    // trailing space 
-    {
-    }")).
-Eval vm_compute in ("<<<M603>>>" ++ check (runes_of_ascii "// trailing space 
-packet packetx { leftPad//
-{ repeat msg_type // @lengthOf(
-charz , char a1 @lengthOf( stringy )`` , repeat int16
-//x
-/// triple
-u8x , int64
-u
-// packet A { u8 x, }
-//	t
-`" ++ [28040; 24687; 31867; 22411]%N ++ runes_of_ascii "`  ,
-} , // trailing space 
-@tag( 0 ) match Packet
-    as u8x{
-007 : u8x [0123456789,	""x y"" ]: u128 , 007 : // packet A { u8 x, }
-u 65535	:o
-,7
-: u, }// @lengthOf(
-,
-    } // `tick` ""quote"" 'q'
-root// " ++ [27880; 37322]%N ++ runes_of_ascii "
-packet trueish { char[ 0  ] Logon ,@tag(
-00 ) u32
-    x_y_z @lengthOf( options1 ) , }
-")).
-Eval vm_compute in ("<<<M717>>>" ++ check (runes_of_ascii "packet// `tick` ""quote"" 'q'
-A{ match packetx as As {	007 :body , [255
-    ,
-""\" ++ [233]%N ++ runes_of_ascii """,
-65535 ,""a	b"" ]: float[255 , ""a\""b"" ]
-:
-i64_  } , @calculatedFrom( ""\" ++ [233]%N ++ runes_of_ascii """ ) @calculatedFrom(
-""CRC32""
-)//
-Z9_@calculatedFrom( ""it's"" ) `
-` ,} MetaData calculatedFrom
-{
-    i16 len // c
-, zchar[
-    42
-    ]
-    A
-`{ , }`
-,string tag `doc` ,float
-    matchKey,
-char[ 7
-    ] len `
-` ,
-// `tick` ""quote"" 'q'
-//
-}root packet int {
-@lengthOf(
-int)  i8  u @lengthOf(len ),
-} options { }
-")).
-Eval vm_compute in ("<<<M17>>>" ++ check (runes_of_ascii "root  packet
-Pad {
-@tag(65535 ) @lengthOf(
-matchKey) //
-int32 pack
-    , // `tick` ""quote"" 'q'
-zchar[65535  ]
-charz @calculatedFrom(""""
-    )
-`crlf
-line` , }
-MetaData
-options1
-    {charz crc
-//
-// " ++ [27880; 37322]%N ++ runes_of_ascii "
-, body packetx `// not a comment`, } packet string_ { char[	7 // @lengthOf(
-]
-T	@calculatedFrom(""\" ++ [233]%N ++ runes_of_ascii """) // c
-, @leftPad ( '\x00')@calculatedFrom(
-""packet"" )
-@tag( 42
-// " ++ [128512]%N ++ runes_of_ascii " emoji
-// " ++ [128512]%N ++ runes_of_ascii " emoji
-) string string_ @calculatedFrom( """ ++ [28040; 24687]%N ++ runes_of_ascii """ ) `a\` , }
-")).
-Eval vm_compute in ("<<<M1253>>>" ++ check (runes_of_ascii "root packet metadata{ @calculatedFrom( ""it's"")match
-    Foo as a1{ ""{,}"" :
-    len,
-0123456789 :
-pack ,
-    4294967296
-:len ,
-0123456789 :matchKey
-, [ ""it's"" ]	:o//	t
-}, //
-@calculatedFrom(""""
-//	t
-// " ++ [128512]%N ++ runes_of_ascii " emoji
-) body {	repeat// trailing space 
-float64  zchar `it's` , repeat float zchar// " ++ [27880; 37322]%N ++ runes_of_ascii "
-`// not a comment` , } , } MetaData _x {
-    crc A // a // b
-, char[]repeatCount `two words`,
-uint8x u128 , o rootA `two words`
-    , }")).
-Eval vm_compute in ("<<<M981>>>" ++ check (runes_of_ascii "packet msg_type { uint32// a // b
-i8i8 `say ""hi""` ,
-match packetx	as  asx
-    {
-0123456789:
-    msg_type ,
-    1
-    :
-    _x } ,
-repeat As	{ f32 body ,string msg_type
-, f64
-    roots
-//
-// " ++ [27880; 37322]%N ++ runes_of_ascii "
-, }
-    // `tick` ""quote"" 'q'
-    ,
-char[] options1`say ""hi""`  ,	}	options { msg_type = true ;} packet	crc{
-asx x_y_z , } MetaData T {T	i8i8
-, int16
-zchar
-,int tag
-,
-    string x_y_z`
-` ,
-    float32
-metadata , }
-")).
-Eval vm_compute in ("<<<M452>>>" ++ check (runes_of_ascii "root packet
-    MetaDataX {} options {  int// " ++ [128512]%N ++ runes_of_ascii " emoji
-=	false
-    //	t
-    } packet
-    falsey {
-    string tag  `say ""hi""` , leftPad // trailing space 
-stringy
-, @calculatedFrom( ""a	b"" ) As
-@calculatedFrom(""packet""	)
-// `tick` ""quote"" 'q'
-// c
-`line1
-line2`
-,
-A@lengthOf(
-// " ++ [27880; 37322]%N ++ runes_of_ascii "
-//
-body) , @calculatedFrom( """ ++ [28040; 24687]%N ++ runes_of_ascii """ ) calculatedFrom ,
-calculatedFrom @lengthOf( calculatedFrom
-)
-`tab	here`,
-}
-")).
-Eval vm_compute in ("<<<M99>>>" ++ check (runes_of_ascii "packet i8i8{ matchKey //x
-, match trueish
-//	t
-// c
-as roots
-{  [ 00 ] : int , 255 :  u128  ,	3 : matchKey , [ 65535 ]
-    :
-// c
-//
-trueish , //	t
-}
-    , } packet packetx{ }
-packet
-u8x {@tag(
-3
-    )
-    match x_y_z as
-leftPad
-{ [ 7 ]:  u8x }
-    , @tag(  42
-) int64 lengthOf ,@tag(
-255 )	zchar[ 7 ]	o , A ,@tag( 0
-    // @lengthOf(
-    ) repeat lengthOf u8x, }
-")).
-Eval vm_compute in ("<<<M3933>>>" ++ check (runes_of_ascii "  MetaData
-u
-    { } options	{ 
-    // c
-
-// @lengthOf(
-    float  = int8
-rootA
-
-    = false 
-;
-
 As
-=  int16 // `tick` ""quote"" 'q'
-  repeatCount 
-
-    // trailing space 
-= int16
-;u8x
-
-    = 
-  //	t
-	'\x00'  ; 
-}
-    options 
-{repeatCount  = 0
-	u128
-
-    //
-	= 
-false;
-    i64_
-
-// trailing space 
-
-  // `tick` ""quote"" 'q'
-  = '0' 
-; 	 //	t
-}
-")).
-Eval vm_compute in ("<<<M3644>>>" ++ check (runes_of_ascii "options {
-    FixedStringPadFromLeft = true;
-    FixedStringPadChar = ' ';
-}
-packet Reject {
-}
-packet Fill {
-    repeat i16 Tail,
-}
-root packet Trade {
-    float64 Ref,
-    Fill,
-    u8 Note,
-    u16 count @lengthOf(Body),
-    match Note as Body {
-        [98, 101] : Fill,
-        34 : Reject,
-    },
-    u32 x @calculatedFrom(""CRC32""),
-}
-")).
-Eval vm_compute in ("<<<M4549>>>" ++ check (runes_of_ascii "MetaData _x {
-    body float,
-    float64 x_y_z `tab	here`,
-    char[00] o `a\`,
-    Z9_ crc `doc`,
-}
-
-packet options1 {
-    @lengthOf(T)
-    @lengthOf(chars)
-    @rightPad(' ')
-    string_ falsey,
-}
-
-MetaData Pad {
-    Foo Z9_ `crlf
-    line`,
-    x_y_z packetx,
-    uint32 calculatedFrom,
-    i64 falsey,
-    packetx As ``,
-}")).
-Eval vm_compute in ("<<<M1913>>>" ++ check (runes_of_ascii "MetaData
-    u { }  options {
-// c
+""" ++ [233]%N ++ runes_of_ascii "t" ++ [233]%N ++ runes_of_ascii """ : asx	, },
+    match packetx as	lengthOf { """ ++ [233]%N ++ runes_of_ascii "t" ++ [233]%N ++ runes_of_ascii """ :
+    roots , 42 :
+lengthOf [ ""a\""b"" ] :asx // trailing space 
+,},
+}packet calculatedFrom {@calculatedFrom( ""abc"" ) repeat
+u64
+//x
 // @lengthOf(
-float = int8 ;rootA uint16 false ; As =	int16 // `tick` ""quote"" 'q'
-repeatCount
-    // trailing space 
-    =
-    int16
-; u8x =
+stringy , @calculatedFrom(
+""" ++ [233]%N ++ runes_of_ascii "t" ++ [233]%N ++ runes_of_ascii """
+) i32 i8i8 @lengthOf(
+f32a
+    )
+,i8 Pad // a // b
+@calculatedFrom(""a\\"") ,
+char charz`" ++ [28040; 24687; 31867; 22411]%N ++ runes_of_ascii "`,@calculatedFrom(	""" ++ [233]%N ++ runes_of_ascii "t" ++ [233]%N ++ runes_of_ascii """// c
+)
+@tag(4294967296 )rootA //
+msg_type
+    , @calculatedFrom(
+    ""CRC32"" //	t
+)	@tag( 007) @tag( 0
+    )
+uint8 A
+    `crlf
+line` ,
+    char[ 0123456789 ]// " ++ [128512]%N ++ runes_of_ascii " emoji
+repeatCount	`" ++ [233]%N ++ runes_of_ascii "`, packetx@lengthOf( tag
+)	`it's` , @lengthOf(// c
+leftPad  ) @calculatedFrom( ""\n""
+) @leftPad	( )Foo
+    @calculatedFrom( ""a\\"" ) `" ++ [28040; 24687; 31867; 22411]%N ++ runes_of_ascii "` ,} packet metadata
+{ packetx `" ++ [28040; 24687; 31867; 22411]%N ++ runes_of_ascii "`
+, u16 i64_
+@calculatedFrom( ""a\""b"" ) `
+`
+    ,}
     //	t
-    '\x00' ; } options	{
-    repeatCount
-= 0
-u128
-    //
-    = false ; i64_
+    packet falsey{ //
+@lengthOf(
+//
+// " ++ [128512]%N ++ runes_of_ascii " emoji
+int// @lengthOf(
+)
 // trailing space 
-// `tick` ""quote"" 'q'
-= '0' ; //	t
-}
-")).
-Eval vm_compute in ("<<<M90>>>" ++ check (runes_of_ascii "packet charz {repeat char[ 3 ]
-BodyLength,As stringy, match
-    tag as uint8x { //
-[ ""it's"" , 007
-    , 4294967296
+// " ++ [27880; 37322]%N ++ runes_of_ascii "
+Packet  , @calculatedFrom(
+""packet"" ) @lengthOf( trueish
+    //	t
+    ) @leftPad // " ++ [128512]%N ++ runes_of_ascii " emoji
+()
+A repeatCount
+    ,A `
+`// " ++ [128512]%N ++ runes_of_ascii " emoji
+, repeat  trueish
+    `{ , }` , zchar[
+    /// triple
+    42
+/// triple
+//	t
+] rootA @lengthOf( A ),} root
+    packet u { repeat char[]i8i8 , @tag( 007) body
     // c
-    ] : uint8x ,
-}, // a // b
-@tag( 0
-)/// triple
-repeat char[	7	] u	,}
+    { repeat u8x`tab	here`, } ,	@rightPad(
+    // @lengthOf(
+    '\x00'
+    ) i16
+matchKey`it's` ,@lengthOf( trueish
+)
+metadata  @lengthOf(
+lengthOf)
+    ,// `tick` ""quote"" 'q'
+int
+@calculatedFrom( ""`tick`"" ) ,@tag(
+3) match x_y_z	as BodyLength {1 //	t
+:options1
+//	t
+// c
+,
+    } , repeat i64_
+string_	,
+    //
+    u8 trueish , f64
+calculatedFrom ,}")).
+Eval vm_compute in ("<<<M911>>>" ++ check (runes_of_ascii "
+root
+packet
+    u
+{ @tag(
+    4294967296	) // packet A { u8 x, }
+@rightPad( '0' ) @tag(
+    7 ) repeat x , char[ // packet A { u8 x, }
+42	]
+charz
+    @lengthOf(Z9_) `line1
+line2`,zchar[ 65535 ] // `tick` ""quote"" 'q'
+crc @lengthOf( string_// a // b
+),
+    char[ 65535
+]// trailing space 
+trueish `crlf
+line` ,repeat x_y_z leftPad `" ++ [233]%N ++ runes_of_ascii "` ,T
+@calculatedFrom(
+""\n"")
+,  A ,
+char[]  crc @lengthOf( matchKey ) , repeat
+// @lengthOf(
+/// triple
+rootA // @lengthOf(
+`tab	here` , @rightPad
+//
+//	t
+( ' ' ) match roots as charz {
+""{,}""	: len ,
+    """" :
+Z9_ ,// trailing space 
+""abc""
+    : roots
+    ,
+} ,} packet _x {	@leftPad(// a // b
+'\x00' )
+    match tag	as u8x { """ ++ [128512]%N ++ runes_of_ascii """ : asx // packet A { u8 x, }
+, 4294967296
+:
+// a // b
+// `tick` ""quote"" 'q'
+u,
+    [
+""" ++ [28040; 24687]%N ++ runes_of_ascii """ , 7 , 7 ,
+    ""{,}"" , ""a	b"" //x
+]// `tick` ""quote"" 'q'
+:
+metadata
+    ,} ,
+match
+uint8x	as // a // b
+x_y_z // c
+{	[ 3 //x
+, 42
+    , // @lengthOf(
+""\" ++ [233]%N ++ runes_of_ascii """ ,""\" ++ [233]%N ++ runes_of_ascii """,
+""a	b"",007 ,42// packet A { u8 x, }
+, ""{,}"" // c
+]
+: u128
+    // trailing space 
+    , //	t
+""a\\""
+    : Foo
+,} ,i16 metadata,@leftPad ( ' '	)  u8 Logon
+// c
+// @lengthOf(
+`// not a comment` , Pad {
+zchar[  0//x
+] int @calculatedFrom( ""it's"" ) , } ,char[
+65535
+    // trailing space 
+    ]
+    //x
+    i8i8`crlf
+line` , string_
+, } packet x_y_z {u8 uint8x, match pack as Pad
+    { ""it's"" : asx ""`tick`"" :a1 , [  0
+    ] : // `tick` ""quote"" 'q'
+u128
+    , 42 : o
+    ,	""" ++ [128512]%N ++ runes_of_ascii """  :	tag // " ++ [27880; 37322]%N ++ runes_of_ascii "
+,	} , repeat
+i8
     // packet A { u8 x, }
-    MetaData options1
-    { Z9_  _x ,	} packet BodyLength
-{} MetaData chars { float Foo,
-}")).
-Eval vm_compute in ("<<<M2071>>>" ++ check (runes_of_ascii "MetaData
-    u { }  options " ++ [65279]%N ++ runes_of_ascii " {
-// c
-// @lengthOf(
-float = int8 ;rootA =false ; As =	int16 // `tick` ""quote"" 'q'
-repeatCount
-    // trailing space 
-    =
-    int16
-; u8x =
-    //	t
-    '\x00' ; } options	{
-    repeatCount
-= 0
-u128
-    //
-    = false ; i64_
-// trailing space 
-// `tick` ""quote"" 'q'
-= '0' ; //	t
-}
+    MetaDataX,@lengthOf( charz ) asx @lengthOf(
+    A
+) ,  @calculatedFrom(
+""{,}"" )@lengthOf( leftPad )@rightPad (
+) stringy
+    // @lengthOf(
+    Z9_ `` ,
+calculatedFrom `" ++ [28040; 24687; 31867; 22411]%N ++ runes_of_ascii "`, }	packet // " ++ [27880; 37322]%N ++ runes_of_ascii "
+matchKey {@calculatedFrom( ""\n"" ) f32 msg_type , zchar[	10	] chars ,}
 ")).
-Eval vm_compute in ("<<<M1922>>>" ++ check (runes_of_ascii "MetaData
-    u { }  options {
-// c
-// @lengthOf(
-float = int8 ;rootA =false As ; =	int16 // `tick` ""quote"" 'q'
+Eval vm_compute in ("<<<M3748>>>" ++ check (runes_of_ascii "packet
+uint8x 
+{ match
+    Pad as	// " ++ [128512]%N ++ runes_of_ascii " emoji
+
 repeatCount
+	{ [ 
+0 ]  :	lengthOf	,
+
+    [ 
+""// no comment"" ]
+:metadata 
+,}
+,
+metadata
     // trailing space 
-    =
-    int16
-; u8x =
-    //	t
-    '\x00' ; } options	{
-    repeatCount
-= 0
-u128
-    //
-    = false ; i64_
-// trailing space 
-// `tick` ""quote"" 'q'
-= '0' ; //	t
+	//
+  ,
+
+    zchar[ 	 /// triple
+  1 ]
+    trueish  //	t
+
+, 
+@calculatedFrom(  ""a\""b""
+)
+
+match	//x
+  roots
+
+as	f32a
+{
+4294967296  :i64_ 
+, 
+""it's""
+    : a1
+    ,[
+	// trailing space 
+    	00,  0123456789	]
+    : 
+As,
+    255:
+	Packet
+, ""{,}""
+:
+T/// triple
+	0 :  falsey	}
+    ,
+
+body@calculatedFrom( ""\n"" 
+    // trailing space 
+  ),	@calculatedFrom(
+
+""" ++ [128512]%N ++ runes_of_ascii """) @tag( 10
+
+)
+char[ 
+10] trueish  `doc` ,
+@tag(255
+    )
+	repeat  Z9_	{asx
+chars 
+`// not a comment`
+,
+}  ,  @lengthOf(
+Packet
+)
+u16 crc , } 
+	    // `tick` ""quote"" 'q'
+		options
+{ BodyLength = i32  ;  x 	 // " ++ [128512]%N ++ runes_of_ascii " emoji
+=255;
+u=3 
 }
-")).
-Eval vm_compute in ("<<<M182>>>" ++ check (runes_of_ascii "packet
+options{} packet
+	calculatedFrom { }  
+      //x
+	root 
+packet
+
+Header
+{
+
+Pad {
+repeatCount
+
+    ,	uint16 zchar
+, match
+
+msg_type
+	as pack
+
+    /// triple
+	{
+""abc""
+:repeatCount ,
+
+""{,}"" :
+
+repeatCount
+    ""a	b"": calculatedFrom  } ,repeat  string
+	Logon `a\`
+
+, }	, @lengthOf(
+x_y_z
+    )	match 
+tag  as
+    repeatCount {  007
+
+    :	BodyLength
+	, [ 
+        //	t
+      """ ++ [28040; 24687]%N ++ runes_of_ascii """
+] :BodyLength 42
+    :
+string_""// no comment""  
+  // trailing space 
+	/// triple
+	:	//
+  	Z9_
+    ,
+	4294967296
+
+    : 
+
+// " ++ [128512]%N ++ runes_of_ascii " emoji
+  _x }
+,f64
+u `it's`	, 
+zchar[
+    00 ]
+	f32a
+
+    `doc`	,	match
+    i64_  as Logon{
+
+    4294967296 	 // a // b
+    :metadata , },
+	char[	1]Pad ,
+
+zchar[
+
+    0123456789 ] float// @lengthOf(
+    `` ,	}")).
+Eval vm_compute in ("<<<M875>>>" ++ check (runes_of_ascii "packet Z9_ {  @tag( 4294967296
+) char[255
+    ]msg_type @calculatedFrom(
+    ""abc""	),
+uint16 x  `" ++ [28040; 24687; 31867; 22411]%N ++ runes_of_ascii "`, @rightPad (
+'0' ) match len as Logon {
+    7 : metadata , ""{,}"": u8x
+,[ ""\n"", 65535 ,
+65535 ]
+// " ++ [128512]%N ++ runes_of_ascii " emoji
+// " ++ [27880; 37322]%N ++ runes_of_ascii "
+: int
+    ,""a\""b"" :	leftPad} , zchar[ 42] rootA, @calculatedFrom(
 // @lengthOf(
 // " ++ [128512]%N ++ runes_of_ascii " emoji
-Foo { @calculatedFrom( """" )
-@calculatedFrom(""1""
-) @rightPad () int32 As
-@calculatedFrom( """"// a // b
-)
-    `say ""hi""` // c
-, @calculatedFrom( ""\n""
-)
+""a\\"" ) zchar[42] A , Packet// trailing space 
+{
+    repeat //
+u128 {repeat
+chars{ tag  BodyLength , float32 calculatedFrom	`doc` ,match x as string_ {
+""{,}""
+:
+x """"
+: packetx	, } , }, } /// triple
+,  }
 // trailing space 
 /// triple
-char[// trailing space 
-65535 ] asx ,
-    repeat	int8 trueish `{ , }` ,
-} root packet lengthOf{  }")).
-Eval vm_compute in ("<<<M1960>>>" ++ check (runes_of_ascii "MetaData
-    u { }  options {
-// c
-// @lengthOf(
-float = int8 ;rootA =false ; As =	int16 // `tick` ""quote"" 'q'
+,
+    // `tick` ""quote"" 'q'
+    @rightPad( ) options1
+`u8 x,`
+, repeat//
+i32 repeatCount,@lengthOf(Foo )@calculatedFrom( ""packet"" )int32 As
+    @lengthOf( Pad )
+, }
+packet As {@tag(  65535 /// triple
+)int asx
+    `line1
+line2` , @calculatedFrom( """ ++ [28040; 24687]%N ++ runes_of_ascii """) @rightPad (
+// " ++ [27880; 37322]%N ++ runes_of_ascii "
+//	t
+)int32
+    // c
+    leftPad
+`" ++ [28040; 24687; 31867; 22411]%N ++ runes_of_ascii "` ,char[] zchar , string x_y_z
+,  f64
+// a // b
+/// triple
 repeatCount
-    // trailing space 
-    =
-    int16
-;  =
-    //	t
-    '\x00' ; } options	{
-    repeatCount
-= 0
-u128
-    //
-    = false ; i64_
+    @calculatedFrom(
 // trailing space 
+// @lengthOf(
+""x y"") ,
+    @leftPad () match falsey as
+int  { """ ++ [28040; 24687]%N ++ runes_of_ascii """ : MetaDataX 007
+: msg_type , ""CRC32""
+: Header ,//
+4294967296 : charz , 255
+:trueish
+    1  : Header , } ,@lengthOf(// packet A { u8 x, }
+leftPad // c
+)_x , }
+packet chars //
+{match string_ as A { /// triple
+""`tick`""
+: Foo ,  3:trueish
+    ,} ,
+match Header
+    as	repeatCount{ """ ++ [128512]%N ++ runes_of_ascii """
+: asx ,42	:leftPad , } , }
+")).
+Eval vm_compute in ("<<<M905>>>" ++ check (runes_of_ascii "  options	{
+    i64_ =
+    007; asx= ' '
+;/// triple
+}MetaData	tag { float32 uint8x , } packet  len { @tag( 7
+) repeat uint8x {
+    match zchar as	As { [ 00
+,""" ++ [28040; 24687]%N ++ runes_of_ascii """
+, 00 ,
+    0123456789 , 0 , 3 ,
+""\n""] :
+    // " ++ [128512]%N ++ runes_of_ascii " emoji
+    uint8x ,
+},} , u8x @lengthOf(
+    falsey ),
+    @calculatedFrom( // a // b
+""x y""
+) // `tick` ""quote"" 'q'
+int16 A `{ , }`
+    ,	lengthOf { o
+//x
+// " ++ [128512]%N ++ runes_of_ascii " emoji
+@lengthOf( repeatCount
+    ) ,
+uint16 // packet A { u8 x, }
+i8i8 @calculatedFrom( """ ++ [28040; 24687]%N ++ runes_of_ascii """ ) ,
+    char[ 42  ]
+repeatCount , }
+    ,@calculatedFrom(""{,}""
+)//
+repeat
+    BodyLength
+    ,
+char[]
+    lengthOf/// triple
+@calculatedFrom(""{,}""	)
 // `tick` ""quote"" 'q'
-= '0' ; //	t
+// packet A { u8 x, }
+`
+`	, @tag(  00 )
+    repeat	u128
+`a\` , } options {
+}packet lengthOf { match MetaDataX as pack
+{[
+    ""\" ++ [233]%N ++ runes_of_ascii """ ] :	Packet // `tick` ""quote"" 'q'
+, 42 :
+lengthOf , ""// no comment"" : i64_ // @lengthOf(
+,
+    [ """ ++ [128512]%N ++ runes_of_ascii """
+    ,
+255
+    , ""abc""
+    , ""{,}"", ""{,}"" ,
+    1 ]
+    :Pad [ 3 // c
+, 3 , 255
+] : BodyLength	, }
+//	t
+// a // b
+, repeatCount	asx ,falsey ,zchar[ 0123456789 ]a1 @calculatedFrom( // " ++ [128512]%N ++ runes_of_ascii " emoji
+""it's""
+    ) `// not a comment`
+, @leftPad
+    // " ++ [27880; 37322]%N ++ runes_of_ascii "
+    ( '\x00' )f32a ,rootA@lengthOf( Pad ) ,
+    match As as int { 0: calculatedFrom ,}
+    ,
+    }
+
+")).
+Eval vm_compute in ("<<<M1024>>>" ++ check (runes_of_ascii "/// triple
+packet string_{ repeat As
+u128 ,
+    @lengthOf( Header  ) i8i8@lengthOf(len )`" ++ [28040; 24687; 31867; 22411]%N ++ runes_of_ascii "` , uint8x { match i8i8
+as// trailing space 
+msg_type
+{ 65535 :
+    Foo	, [ ""abc"" ,	00 ,
+    ""// no comment"" ,0 ,0123456789,
+    ""// no comment"" ]
+// `tick` ""quote"" 'q'
+// " ++ [128512]%N ++ runes_of_ascii " emoji
+:	int,
+""" ++ [128512]%N ++ runes_of_ascii """ : u8x , ""x y"" :x_y_z , 7
+    :
+len , 42 : As // c
+, } , } , @tag(
+    4294967296
+// packet A { u8 x, }
+// packet A { u8 x, }
+)zchar[
+    255
+] repeatCount , repeat int16 x ,u16 Foo `two words` ,repeat char[42 ] f32a ,string msg_type
+    /// triple
+    , @rightPad  (
+    ' ' ) Z9_@calculatedFrom(//
+""it's""	)  ,} packet stringy// packet A { u8 x, }
+{
+    // `tick` ""quote"" 'q'
+    float32 metadata ,}
+packet// @lengthOf(
+body{match leftPad
+as
+falsey { """ ++ [233]%N ++ runes_of_ascii "t" ++ [233]%N ++ runes_of_ascii """ :	len  ,
+} ,
+    // trailing space 
+    @calculatedFrom( ""CRC32""
+    ) f32a { uint32 body @lengthOf(
+    Z9_ ) /// triple
+`line1
+line2` ,
+    // @lengthOf(
+    f64 u `line1
+line2`, trueish @lengthOf( rootA )
+    ,char[ 255
+    ]	u@calculatedFrom( ""a	b""
+// `tick` ""quote"" 'q'
+// @lengthOf(
+) ,
+} , @tag(  42 )
+options1  a1
+    //
+    ,
+    char[]	Z9_	@calculatedFrom( ""\n""// c
+) , }
+//
+")).
+Eval vm_compute in ("<<<M812>>>" ++ check (runes_of_ascii "
+MetaData Packet //
+{ stringy body ,
+    //	t
+    x_y_z
+    matchKey , zchar[
+// " ++ [27880; 37322]%N ++ runes_of_ascii "
+// `tick` ""quote"" 'q'
+007 ] MetaDataX , // " ++ [128512]%N ++ runes_of_ascii " emoji
+u16 u128
+    `u8 x,`, stringy i64_
+    , char[]	Z9_  `two words` , } MetaData body { float32 Header
+    , }options
+    {trueish //x
+= false ; x_y_z = // c
+7 Packet =	false i8i8=
+//x
+// " ++ [128512]%N ++ runes_of_ascii " emoji
+zchar[255 ] tag =
+    char[] ; } packet// c
+crc { repeat  char[
+    0 ]
+    x ,
+    repeat float64 packetx , match	As as len{	[255 ]
+:
+Z9_
+    , // " ++ [27880; 37322]%N ++ runes_of_ascii "
+""{,}"" :
+//
+// " ++ [27880; 37322]%N ++ runes_of_ascii "
+MetaDataX ,  [ 00 , ""a	b"", 255 ] :Pad , 3:
+    body , }  , u128 @calculatedFrom(
+    ""CRC32"")  , // `tick` ""quote"" 'q'
+@tag(10) metadata {  repeat trueish x`line1
+line2`// " ++ [27880; 37322]%N ++ runes_of_ascii "
+,
+    u @calculatedFrom(""it's"" )
+, match
+// packet A { u8 x, }
+// " ++ [27880; 37322]%N ++ runes_of_ascii "
+trueish as _x { 42 :
+    /// triple
+    o [
+""CRC32""]
+: rootA  , } /// triple
+, } , tag
+    {Z9_{
+zchar[
+    // trailing space 
+    3  ]stringy`tab	here` , } , } //x
+, matchKey u8x,  repeat
+int64	metadata `{ , }`
+, @leftPad( '\x00')
+T int
+    , @calculatedFrom( ""abc"" ) zchar[ 4294967296 ] charz
+    ,// " ++ [128512]%N ++ runes_of_ascii " emoji
+}")).
+Eval vm_compute in ("<<<M367>>>" ++ check (runes_of_ascii "
+options {  Packet = ""packet""len
+=
+""packet"" ;
+    charz =true} packet calculatedFrom// c
+{
+//	t
+// a // b
+repeat// " ++ [27880; 37322]%N ++ runes_of_ascii "
+Packet, uint8x @calculatedFrom(
+// @lengthOf(
+// `tick` ""quote"" 'q'
+""\n""
+    ) , @calculatedFrom( ""// no comment""	)
+@rightPad /// triple
+(	' ') match
+    x
+//x
+//	t
+as Packet
+{
+00 : Pad [
+0	] :// @lengthOf(
+As , }
+,
+@lengthOf( chars )
+a1 `it's` , match Logon as int { ""packet"": int [ """ ++ [28040; 24687]%N ++ runes_of_ascii """ ,0123456789 // trailing space 
+, ""x y"" , 65535
+    //	t
+    ] : lengthOf, 10:asx, [  ""// no comment"" ] :  zchar, ""// no comment"": a1
+//
+// `tick` ""quote"" 'q'
+, 0 :len
+    ,} // " ++ [27880; 37322]%N ++ runes_of_ascii "
+,
+match u8x as
+    MetaDataX
+{
+    [
+255 ]
+    :
+string_ // packet A { u8 x, }
+, [ ""// no comment"" ,	""CRC32""]: metadata,// packet A { u8 x, }
+""a\""b""	:
+    // " ++ [27880; 37322]%N ++ runes_of_ascii "
+    leftPad }, Header `tab	here`, } packet u128 {
+    char[10//x
+] trueish `tab	here`, repeat asx {
+match
+len as chars {1 : MetaDataX ,
+42 :
+    roots ,
+    10:
+BodyLength,
+""// no comment"" :
+    o , ""a\\"" :	i64_ ,
+    }
+    ,	} ,
+    }
+")).
+Eval vm_compute in ("<<<M356>>>" ++ check (runes_of_ascii "packet
+Header { trueish @calculatedFrom(
+""a	b"")
+,
+    Header@calculatedFrom(
+    ""a\\"" //
+)
+,//	t
+@calculatedFrom(  ""a\\"" )/// triple
+i16	body
+@lengthOf( f32a  ) , // packet A { u8 x, }
+match // packet A { u8 x, }
+stringy as _x{ ""`tick`""
+// trailing space 
+//
+: string_ ,42:u8x , ""\n""
+    :
+    repeatCount, ""a\\"" : options1 ,	[ 4294967296 , ""{,}""
+/// triple
+//x
+,
+    4294967296 ,  """ ++ [28040; 24687]%N ++ runes_of_ascii """ , 3//	t
+,
+""abc"" ]
+:
+    //	t
+    u8x , } , zchar[0123456789
+    ] MetaDataX,@calculatedFrom(
+    ""x y"" //	t
+) @lengthOf( A )	zchar[ //x
+00 ] a1 , match
+// " ++ [128512]%N ++ runes_of_ascii " emoji
+// `tick` ""quote"" 'q'
+options1 as calculatedFrom // packet A { u8 x, }
+{
+    [ ""// no comment""
+    // " ++ [27880; 37322]%N ++ runes_of_ascii "
+    ,  ""abc"" , 65535,	""CRC32""
+, 0
+, ""CRC32"" ]
+: uint8x
+    , ""// no comment"" :
+// " ++ [128512]%N ++ runes_of_ascii " emoji
+// trailing space 
+chars	,	[ """ ++ [233]%N ++ runes_of_ascii "t" ++ [233]%N ++ runes_of_ascii """ , ""a	b"" ]
+    :
+    pack , 10 :	tag ,}  , @tag( 42 )repeat
+    // trailing space 
+    len,
+    @lengthOf( u )char[] f32a
+, // packet A { u8 x, }
 }
 ")).
-Eval vm_compute in ("<<<M3939>>>" ++ check (runes_of_ascii "options {
-    i64_ = char[65535]
-    T = '0'
+Eval vm_compute in ("<<<M431>>>" ++ check (runes_of_ascii "// a // b
+packet
+body{ @lengthOf( tag
+    // trailing space 
+    ) char[
+255 ] Packet
+    , @leftPad
+() @rightPad ('0'
+) repeat Pad
+    { repeat char[007 ]	As ,
+    } ,
+match Header	as crc
+{007
+: Logon[""a\""b"" , 0
+] :_x,255
+:
+    _x// trailing space 
+, 3 :
+    pack
+,""a\\""	:
+    _x  , ""CRC32"" : repeatCount// trailing space 
+,
+}
+// `tick` ""quote"" 'q'
+// " ++ [128512]%N ++ runes_of_ascii " emoji
+,
+    @lengthOf( MetaDataX
+    )	charz
+    chars // @lengthOf(
+`it's` ,@tag(
+    10//
+) match a1 as x_y_z {
+    ""// no comment"":Foo
+    , [ ""// no comment"" ,10 ]
+: roots , } , }	packet options1 {
+}  packet asx { @rightPad (' '
+) match string_ as MetaDataX//x
+{[ 42 , // trailing space 
+3 ,  ""abc"" ,	7  ]: rootA
+, 0123456789 :BodyLength
+""abc"" :BodyLength , ""x y"" :
+    metadata ,}
+,}MetaData
+u128
+    { string  rootA	,	}
+MetaData _x {i8i8 matchKey `it's`
+//	t
+// a // b
+, uint32 len ,	tag options1 ,char[ 1
+    ] x,}")).
+Eval vm_compute in ("<<<M3962>>>" ++ check (runes_of_ascii "packet Pad {
+    @tag(65535)
+    repeat char[4294967296] o `u8 x,`,
+    @calculatedFrom(""x y"")
+    metadata @lengthOf(repeatCount) `tab	here`,
 }
 
-packet crc {
-    @calculatedFrom(""abc"")
-    zchar[007] msg_type @lengthOf(Header),
-    repeat int8 string_ `crlf
-    line`,
-    tag @lengthOf(BodyLength),
-}
-
-// trailing space 
-options {
-    //
-    matchKey = """ ++ [128512]%N ++ runes_of_ascii """;/// triple
-    asx = ' ';
-    crc = true;
-}")).
-Eval vm_compute in ("<<<M679>>>" ++ check (runes_of_ascii "MetaData BodyLength { falsey
+packet u128 {
     // packet A { u8 x, }
-    Logon  `{ , }` ,u8 int`" ++ [28040; 24687; 31867; 22411]%N ++ runes_of_ascii "`, zchar[7 ]// packet A { u8 x, }
-len/// triple
-,  }  MetaData// @lengthOf(
-u
-    {
-Logon matchKey
-`{ , }`	,	char[42 ]
+    // " ++ [128512]%N ++ runes_of_ascii " emoji
+    repeat zchar[10] _x,/// triple
+}
+
+options {
+    /// triple
+    msg_type = true;
+}
+
+packet tag {
+    // c
+    @tag(7)
+    i32 f32a @lengthOf(u8x) `two words`,
+    string Foo @lengthOf(Foo),
+    @rightPad('0')
+    match As as crc {
+        """" : float,
+        //	t
+    },
+    repeat i16 i8i8,
+    @rightPad('0')
+    repeat u128 {
+        i64 tag @calculatedFrom(""" ++ [28040; 24687]%N ++ runes_of_ascii """),
+        i8i8 @calculatedFrom(""{,}"") `it's`,
+        repeat string rootA,
+    },
+    repeat string chars,
+    asx,
+    match calculatedFrom as calculatedFrom {
+        ""a\""b"" : Logon,
+        ""a	b"" : asx,
+    },
+    char zchar @calculatedFrom(""1"") `say ""hi""`,
+}")).
+Eval vm_compute in ("<<<M1071>>>" ++ check (runes_of_ascii "packet Logon {string rootA	, rootA
+    {	match
+    repeatCount as int {
+    ""{,}"" :	zchar , 65535  : repeatCount // packet A { u8 x, }
+,
+// " ++ [128512]%N ++ runes_of_ascii " emoji
+/// triple
+007 //	t
+://
+i8i8 007 : x,007: matchKey
+, }  ,zchar[ 0123456789] float ,} ,uint64 // @lengthOf(
+string_	`// not a comment` ,	repeat MetaDataX ,	} options { Z9_= '0' ;
+    A // " ++ [128512]%N ++ runes_of_ascii " emoji
+= 1 ;x_y_z = true ;// a // b
+T = false  ;
+    }  packet crc{
+//x
+// `tick` ""quote"" 'q'
+@lengthOf(
+    repeatCount )
+    char[] calculatedFrom @lengthOf( lengthOf
+// @lengthOf(
+// " ++ [128512]%N ++ runes_of_ascii " emoji
+) `a\`
+, } packet Foo {
+    //
+    match uint8x as tag { [ 3 ,""`tick`"" ,	""packet""
+    , ""// no comment""
+// trailing space 
+// " ++ [27880; 37322]%N ++ runes_of_ascii "
+,	""a	b"" ,
+    007
+    ] :
+    Header	,
+7 :	_x , // a // b
+10 :
+    falsey ,
+""\n"" :
+    falsey	,255	: rootA , } ,
+    }
+
+")).
+Eval vm_compute in ("<<<M10>>>" ++ check (runes_of_ascii "
+options{
+crc
+// " ++ [128512]%N ++ runes_of_ascii " emoji
+// trailing space 
+= uint8} packet len {uint8x @calculatedFrom( ""x y"" ), @lengthOf(
+    rootA  )
+    @lengthOf( body
+// `tick` ""quote"" 'q'
+// `tick` ""quote"" 'q'
+)@calculatedFrom(  ""x y""
+) Packet  @calculatedFrom(// `tick` ""quote"" 'q'
+""\n"" )
+`
+`
+, Packet ,  repeat
+    // trailing space 
+    i8	Z9_ , @tag(255 )
+falsey `
+` ,	i64 int `line1
+line2` ,@calculatedFrom(
+    ""\n""
 // packet A { u8 x, }
 /// triple
-int
-`line1
-line2`,
-    char[ 7
-    ] x_y_z
-    `doc` , }")).
-Eval vm_compute in ("<<<M3307>>>" ++ check (runes_of_ascii "// top
-root // c0
-packet // c1
-matchKey // c2
-{ // c3
-zchar[ // c4
-3 // c5
-] // c6
-pack // c7
-@calculatedFrom( // c8
-""a	b"" // c9
-) // c10
-`doc` // c11
-, // c12
-} // c13
-options // c14
-{ // c15
-} // c16
-MetaData // c17
-A // c18
-{ // c19
-int8 // c20
-msg_type // c21
-, // c22
-} // c23
-")).
-Eval vm_compute in ("<<<M3881>>>" ++ check (runes_of_ascii "packet 
-	    //	t
-
-// trailing space 
-_x
-{ 
-	    // packet A { u8 x, }
-	// c
-  	char[	3
-]
-
-u8x@lengthOf(
-    u8x )
-,
-
-@calculatedFrom( """ ++ [128512]%N ++ runes_of_ascii """// @lengthOf(
-    )
-	i16 Foo @lengthOf( 
-string_
-
-) `doc`,
-    repeat  i64 metadata
-, @lengthOf( string_  )	i8// c
-  	u 
-,
+) @leftPad()
+@calculatedFrom(//	t
+""abc"" )// packet A { u8 x, }
+BodyLength ,uint8 u , @calculatedFrom(
+    ""a\""b""
+) @lengthOf( metadata ) @rightPad (' ') // packet A { u8 x, }
+char[10] f32a , }  packet repeatCount { }options  {
+string_ =  i32 ;
+o =	""a	b"" ;
+    i8i8	=
+    ""a\""b"" ; uint8x =
+uint16
+    // " ++ [128512]%N ++ runes_of_ascii " emoji
+    ;
+}")).
+Eval vm_compute in ("<<<M3783>>>" ++ check (runes_of_ascii "packet falsey {
+    uint64 calculatedFrom @lengthOf(msg_type),
+    i16 zchar,
+    f32 a1,
+    // " ++ [27880; 37322]%N ++ runes_of_ascii "
+    @calculatedFrom(""// no comment"")
+    a1 `say ""hi""`,
+    As Z9_,
+    // packet A { u8 x, }
+    repeatCount @lengthOf(uint8x),
+    u8 o @calculatedFrom(""`tick`"") `say ""hi""`,
+    f32 A @lengthOf(packetx) `line1
+        line2`,
 }
+
+MetaData len {
+    As rootA,
+    zchar[10] BodyLength `it's`,
+    int32 crc `
+        `,
+    zchar u8x,
+    leftPad BodyLength,
+}
+
+MetaData zchar {
+    options1 calculatedFrom,
+    zchar[7] trueish,
+}// " ++ [27880; 37322]%N ++ runes_of_ascii "
+
+root packet Foo {
+    @lengthOf(i8i8)
+    repeat zchar[255] u `// not a comment`,
+}
+
+MetaData int {
+    uint16 matchKey,
+    int16 x_y_z `say ""hi""`,
+    leftPad Logon,
+}")).
+Eval vm_compute in ("<<<M1298>>>" ++ check (runes_of_ascii "MetaData
+    Foo	{  }	packet x_y_z  {	a1
+    u8x, /// triple
+x
+`it's`
+    ,} packet
+    Foo
+{
+@lengthOf(
+    o) T @calculatedFrom( """ ++ [28040; 24687]%N ++ runes_of_ascii """ ) `two words`  ,
+@lengthOf( i8i8 ) repeat metadata{u
+{ repeat char[ 0
+]// trailing space 
+string_ ``, repeat
+body {
+    //
+    zchar[	0123456789	]
+Pad
+    ,
+    match
+Pad as matchKey{
+00
+:_x
+, [
+    65535 , 7 , 10 , 3// `tick` ""quote"" 'q'
+,// trailing space 
+""" ++ [128512]%N ++ runes_of_ascii """
+, 42
+, ""\" ++ [233]%N ++ runes_of_ascii """ ,""a	b""
+] : i8i8
+    , } ,	int8 charz , match packetx
+    as lengthOf	{
+    [
+    1/// triple
+, 4294967296
+, 1 ] :
+As
+},
+}
+    //
+    , repeat zchar[ 4294967296]_x
+, }, string o `` , }	, Header
+Header
+// @lengthOf(
+// c
+`u8 x,`
+,charz
+    i8i8 `crlf
+line` ,}")).
+Eval vm_compute in ("<<<M4400>>>" ++ check (runes_of_ascii "packet A {
+    repeatCount {
+        // " ++ [27880; 37322]%N ++ runes_of_ascii "
+        repeat string falsey `" ++ [233]%N ++ runes_of_ascii "`,
+        x Z9_,
+        rootA repeatCount `a\`,
+        repeat char[] x_y_z ``,
+    },
+}
+
+root packet int {
+    @calculatedFrom(""\n"")
+    @calculatedFrom(""a\\"")
+    repeat lengthOf repeatCount `two words`,
+}
+
+root packet BodyLength {
+    @calculatedFrom(""`tick`"")
+    repeat asx {
+        zchar[10] MetaDataX,
+        repeat char[4294967296] rootA `say ""hi""`,
+        uint64 As `" ++ [233]%N ++ runes_of_ascii "`,
+        chars u,
+    },
+    @tag(0123456789)
+    @tag(0)
+    string roots `" ++ [28040; 24687; 31867; 22411]%N ++ runes_of_ascii "`,
+    u8 crc `{ , }`,// a // b
+    @calculatedFrom(""CRC32"")
+    repeat i64_ _x,
+    char Packet,
+}")).
+Eval vm_compute in ("<<<M269>>>" ++ check (runes_of_ascii "// trailing space 
+packet
+// packet A { u8 x, }
+// packet A { u8 x, }
+o {
+@calculatedFrom(
+""`tick`""
+    //	t
+    )repeat i8 rootA
+, @calculatedFrom( ""`tick`""	)Logon
+body`line1
+line2` , // " ++ [128512]%N ++ runes_of_ascii " emoji
+@lengthOf(crc )@tag( 0
+) repeat
+falsey string_ , @calculatedFrom(
+"""" )
+    lengthOf/// triple
+, u16 calculatedFrom ,
+    i8i8//x
+tag `two words` , @tag( 1)	string rootA`u8 x,`
+,match pack as int { [
+""" ++ [233]%N ++ runes_of_ascii "t" ++ [233]%N ++ runes_of_ascii """
+, ""\" ++ [233]%N ++ runes_of_ascii """	, 10 ,  0,
+4294967296 , ""packet"" ,""" ++ [28040; 24687]%N ++ runes_of_ascii """
+,""" ++ [233]%N ++ runes_of_ascii "t" ++ [233]%N ++ runes_of_ascii """ ] : int
+//x
+// trailing space 
+, 3
+    :zchar , """ ++ [128512]%N ++ runes_of_ascii """
+:
+options1, 00 // c
+:x_y_z , 4294967296 :
+chars , } ,float32 matchKey
+    //x
+    ,
+T
+,}
 ")).
-Eval vm_compute in ("<<<M4109>>>" ++ check (runes_of_ascii "packet P1 {
-    u8 a,
+Eval vm_compute in ("<<<M3896>>>" ++ check (runes_of_ascii "// top
+packet P1 {
+    u8 a,// c5a
+    // c5b
 }
 
 packet P2 {
-    P1,
+    // c9
+    P1,// c11a
+    // c11b
 }
 
+// c12
 packet P3 {
+    // c15
     P2,
-    P1,
-}
+    // c17
+    P1,// c19
+}// c20a
 
+// c20b
 packet P4 {
+    // c23
     repeat P3,
+    // c26
     P2,
+    // c28
 }
 
+// c29
 root packet P5 {
-    P4,
-    P3,
-    P1,
+    // c33a
+    // c33b
+    P4,// c35a
+    // c35b
+    P3,// c37
+    P1,// c39
     u8 K,
     match K as Body {
+        // c47a
+        // c47b
         4 : P4,
+        // c51a
+        // c51b
         3 : P3,
+        // c55a
+        // c55b
         2 : P2,
         1 : P1,
+        // c63
     },
+}
+// c66")).
+Eval vm_compute in ("<<<M42>>>" ++ check (runes_of_ascii "packet	BodyLength { repeat f32a Pad`// not a comment` ,
+// " ++ [128512]%N ++ runes_of_ascii " emoji
+// c
+}
+MetaData As { }options { crc
+    // packet A { u8 x, }
+    =
+""a\\""
+float= '\x00'
+    a1 // c
+= ' ';i8i8 =
+    4294967296
+}	packet u128 {
+// `tick` ""quote"" 'q'
+//
+match //x
+stringy as o{ ""`tick`""  : Foo  , [ 4294967296 ]	: x_y_z ,} ,zchar[ /// triple
+10 ] // `tick` ""quote"" 'q'
+Packet@lengthOf(u8x
+),
+@lengthOf(
+roots) // " ++ [27880; 37322]%N ++ runes_of_ascii "
+x
+    `// not a comment` , i64
+    asx @lengthOf( rootA ) , metadata ,
+i64_ @calculatedFrom(  ""\" ++ [233]%N ++ runes_of_ascii """ ) ,	@lengthOf(u128
+) repeat o `two words` , }
+")).
+Eval vm_compute in ("<<<M1106>>>" ++ check (runes_of_ascii "packet string_  {
+BodyLength u128 ,
+}	MetaData
+matchKey
+{}
+packet f32a
+{
+    repeat uint32
+// trailing space 
+// `tick` ""quote"" 'q'
+matchKey
+,}
+    root packet trueish // `tick` ""quote"" 'q'
+{ leftPad
+    {match BodyLength as i8i8{255 : metadata
+""CRC32"" // `tick` ""quote"" 'q'
+: metadata ,
+""packet"" : a1 } ,}, } packet
+    asx { leftPad
+//	t
+// packet A { u8 x, }
+{
+    // `tick` ""quote"" 'q'
+    char[	10 ]options1	, char[ 4294967296
+    ]
+//	t
+//
+Packet	`a\` ,
+o `{ , }` , Z9_ {
+match Foo as	T
+    { 3 :
+a1 ,
+} , } ,} ,}
+")).
+Eval vm_compute in ("<<<M3646>>>" ++ check (runes_of_ascii "options {
+    LittleEndian = false;
+    ArrayPrefixLenType = u64;
+    FixedStringPadChar = '0';
+}
+packet Quote {
+    repeat InFlags37 {
+        char[] lastPx,
+    },
+    i16 tag7,
+    char[] f1,
+    zchar[6] Note,
+}
+packet Order {
+    u8 Ref,
+    repeat Quote,
+    repeat string Acct,
+}
+root packet Heartbeat {
+    repeat Quote,
+    @leftPad('0') char[11] OrderId,
+    zchar[8] Ref,
+    u32 Flags,
+    u32 Tail @lengthOf(Body),
+    match Flags as Body {
+        156 : Order,
+        7 : Quote,
+    },
+}
+")).
+Eval vm_compute in ("<<<M489>>>" ++ check (runes_of_ascii "//
+packet
+o {
+repeat
+chars//	t
+{ falsey leftPad `two words` , zchar[ 4294967296 ] packetx
+    @lengthOf( i64_ ) `
+` ,
+repeat msg_type
+    { zchar[ 007
+]	matchKey , i16 falsey@calculatedFrom( ""packet"" ) `crlf
+line` , }  ,
+} , @tag( 00 ) zchar[
+    007
+    ]
+    uint8x `u8 x,` //x
+, char metadata , //x
+match rootA
+// a // b
+// `tick` ""quote"" 'q'
+as
+zchar
+{	10 :
+    float ,42:
+a1 ,
+    } , int  @lengthOf(Packet
+) , charz{i8i8 /// triple
+rootA//
+`doc` , }	,  } options { }
+")).
+Eval vm_compute in ("<<<M1222>>>" ++ check (runes_of_ascii "root packet metadata {
+@calculatedFrom( ""abc""
+    ) // a // b
+repeat charz	metadata `two words` , zchar[0 ]
+    packetx`u8 x,`, i16
+    Pad @lengthOf(
+BodyLength
+    )
+`a\`,string int @lengthOf(  leftPad )`a\` , char[] leftPad @calculatedFrom(	""1"" ) //	t
+, @lengthOf(u128)repeat char[ 10] A `{ , }`
+    , leftPad i64_ , @tag(007
+    )
+x u128 ,
+// packet A { u8 x, }
+// @lengthOf(
+uint32	options1	`it's`// packet A { u8 x, }
+,
+// packet A { u8 x, }
+//x
 }")).
-Eval vm_compute in ("<<<M1518>>>" ++ check (runes_of_ascii "packet
-//	t
-// trailing space 
-_x {
-// packet A { u8 x, }
-// c
-char[
-3
-    ] u8x u8x @lengthOf(
-u8x ) , @calculatedFrom(""" ++ [128512]%N ++ runes_of_ascii """ // @lengthOf(
-)
-i16	Foo
-@lengthOf(	string_
-    )`doc`	, repeat	i64 metadata , @lengthOf( string_
-) i8 // c
-u  `line1
-line2`	,
-}
-")).
-Eval vm_compute in ("<<<M1648>>>" ++ check (runes_of_ascii "packet
-//	t
-// trailing space 
-_x {
-// packet A { u8 x, }
-// c
-char[
-3
-    ] u8x @lengthOf(
-u8x ) , @calculatedFrom(""" ++ [128512]%N ++ runes_of_ascii """ // @lengthOf(
-)
-i16	Foo
-@lengthOf(	string_
-    )`doc`	, repeat	i64 metadata , @lengthOf( string_
-) i8 // c
-u  `line1
-line2`	,
-} }
-")).
-Eval vm_compute in ("<<<M1514>>>" ++ check (runes_of_ascii "packet
-//	t
-// trailing space 
-_x {
-// packet A { u8 x, }
-// c
-char[
-3
-    u8x ] @lengthOf(
-u8x ) , @calculatedFrom(""" ++ [128512]%N ++ runes_of_ascii """ // @lengthOf(
-)
-i16	Foo
-@lengthOf(	string_
-    )`doc`	, repeat	i64 metadata , @lengthOf( string_
-) i8 // c
-u  `line1
-line2`	,
-}
-")).
-Eval vm_compute in ("<<<M3653>>>" ++ check (runes_of_ascii "options {
-    LittleEndian = true;
-}
-packet Logon {
-    u8 x,
-    string user,
-}
-packet Logout {
-    u16 reason,
-}
-packet Empty {
-}
-root packet Frame {
-    u16 MsgType,
-    u16 BodyLen @lengthOf(Body),
-    u8 flags,
-    Logon Body,
-    u32 trailer,
-}
-")).
-Eval vm_compute in ("<<<M1597>>>" ++ check (runes_of_ascii "packet
-//	t
-// trailing space 
-_x {
-// packet A { u8 x, }
-// c
-char[
-3
-    ] u8x @lengthOf(
-u8x ) , @calculatedFrom(""" ++ [128512]%N ++ runes_of_ascii """ // @lengthOf(
-)
-i16	Foo
-@lengthOf(	string_
-    )`doc`	, repeat	 metadata , @lengthOf( string_
-) i8 // c
-u  `line1
-line2`	,
-}
-")).
-Eval vm_compute in ("<<<M1615>>>" ++ check (runes_of_ascii "packet
-//	t
-// trailing space 
-_x {
-// packet A { u8 x, }
-// c
-char[
-3
-    ] u8x @lengthOf(
-u8x ) , @calculatedFrom(""" ++ [128512]%N ++ runes_of_ascii """ // @lengthOf(
-)
-i16	Foo
-@lengthOf(	string_
-    )`doc`	, repeat	i64 metadata , [ string_
-) i8 // c
-u  `line1
-line2`	,
-}
-")).
-Eval vm_compute in ("<<<M4454>>>" ++ check (runes_of_ascii "
-packet
-Foo //	t
-{  match 
-      // a // b
-	i64_//x
-	as  x_y_z
-
-    {	65535 
-:BodyLength ,
-[
-	3  ,""CRC32""
-]:
-    u ,255 :T , [ ""x y"" 
-] :leftPad	,
-0123456789 
-:	As ,}
-,
-	zchar[ 1	] int, }
-
-packet
-    float{ uint16 Packet,
+Eval vm_compute in ("<<<M869>>>" ++ check (runes_of_ascii "packet roots {
+    repeat u8x `two words` ,
+repeat roots // " ++ [128512]%N ++ runes_of_ascii " emoji
+{ // " ++ [27880; 37322]%N ++ runes_of_ascii "
+char[ 1 ] Z9_`it's`, // " ++ [128512]%N ++ runes_of_ascii " emoji
+char[ // trailing space 
+42
+] float`" ++ [28040; 24687; 31867; 22411]%N ++ runes_of_ascii "` ,
+    } , char[]	As  `a\` ,calculatedFrom {repeat uint64
+trueish , } , repeat i64
+MetaDataX ,
+repeat string uint8x `say ""hi""` , _x A
+`
+` , @lengthOf( // `tick` ""quote"" 'q'
+Packet )	@tag(7 )
+@leftPad ( // packet A { u8 x, }
+) Header { u128 , repeat
+    char[] trueish  `a\`, },
     }
 ")).
-Eval vm_compute in ("<<<M3597>>>" ++ check (runes_of_ascii "options
-    {  FixedStringPadChar=	'0'
-    ; 
-}packet
-Q {
+Eval vm_compute in ("<<<M3898>>>" ++ check (runes_of_ascii "options {
+    tag = false;
+    charz = char[4294967296];
+    float = ' ';
+    u = zchar[255]
+    x = ""a\""b""
+}
 
-zchar[
-	4
-] z , @rightPad
-( '\x00'  ) char[3 ] 
-n , char[ 5
-] d
-
-    ,  }root 
-packet R {
-    Q
-,
-	zchar[ 8
-    ] 
-top
-, repeat zchar[
-2
-
-    ] zs,
-
-    }
-
-")).
-Eval vm_compute in ("<<<M4511>>>" ++ check (runes_of_ascii "packet len {
-    Logon,
-    @tag(42)
-    Logon {
-        o @calculatedFrom(""CRC32"") `crlf
-        line`,
-        char[] Logon @calculatedFrom(""x y""),
+packet leftPad {
+    match As as falsey {
+        [
+            10, 0123456789, 007, """ ++ [28040; 24687]%N ++ runes_of_ascii """, ""packet"",
+            ""`tick`"", ""1""
+        ] : calculatedFrom,
     },
-    @leftPad('0')
-    body,
+    @calculatedFrom(""it's"")
+    float64 x_y_z @lengthOf(leftPad),
+    trueish @lengthOf(packetx),
 }
 
-packet uint8x {
-}// a // b")).
-Eval vm_compute in ("<<<M3424>>>" ++ check (runes_of_ascii "// top
-packet // c0
-o // c1
-{ // c2
-repeat // c3
-Logon // c4
-uint8x // c5
-, // c6
-} // c7
-options // c8
-{ // c9
-asx // c10
-= // c11
-zchar[ // c12
-3 // c13
-] // c14
-stringy // c15
-= // c16
-'\x00' // c17
-} // c18
+options {
+    string_ = ""a\""b"";
+    _x = false
+}")).
+Eval vm_compute in ("<<<M715>>>" ++ check (runes_of_ascii "MetaData  len{
+}
+packet BodyLength{ char[
+42
+    ]A@calculatedFrom(""// no comment"" ) `crlf
+line`// a // b
+,  match //
+Header as calculatedFrom {
+/// triple
+// packet A { u8 x, }
+""`tick`"" :
+//x
+//	t
+o
+,
+// packet A { u8 x, }
+// c
+},
+repeat packetx , }packet u { }packet
+x_y_z { @lengthOf( repeatCount
+    ) // trailing space 
+char[] charz @calculatedFrom(
+""it's"" ) `doc` , } packet	calculatedFrom {}
 ")).
-Eval vm_compute in ("<<<M3875>>>" ++ check (runes_of_ascii "packet u8x {
-    @calculatedFrom(""" ++ [128512]%N ++ runes_of_ascii """)
-    rootA @lengthOf(stringy),
-    lengthOf,
-    @lengthOf(u8x)
-    i64_ @calculatedFrom(""a\""b""),
-    @lengthOf(matchKey)
-    @lengthOf(rootA)
-    float32 trueish,
-}// " ++ [27880; 37322]%N)).
+Eval vm_compute in ("<<<M661>>>" ++ check (runes_of_ascii "MetaData u8x
+{ char[]a1 , int16 zchar `tab	here` , u16 charz `
+`, stringy Pad
+, i32 // @lengthOf(
+Header ,zchar[ 7// c
+]//	t
+crc , }options// packet A { u8 x, }
+{
+    } packet charz{ repeat int16 packetx
+, matchKey o ,
+@calculatedFrom( ""it's"" ) MetaDataX @lengthOf( tag)
+`a\`
+// trailing space 
+// " ++ [27880; 37322]%N ++ runes_of_ascii "
+, zchar[
+    255	] _x , i8	i64_ @lengthOf( Header
+    )
+    , } // trailing space ")).
+Eval vm_compute in ("<<<M3546>>>" ++ check (runes_of_ascii "// top
+packet
+    // c0
+B
+    // c1
+{ // c2
+u8 // c3
+a // c4
+, } // c6
+root packet
+    // c8
+P {
+    // c10
+u8 K , // c13a
+  // c13b
+u64
+    // c14
+L // c15a
+  // c15b
+@lengthOf(
+    // c16
+Body // c17
+)
+    // c18
+, match // c20a
+  // c20b
+K // c21a
+  // c21b
+as // c22a
+  // c22b
+Body
+    // c23
+{ 1 : // c26a
+  // c26b
+B , // c28a
+  // c28b
+} , // c30
+}
+    // c31
+")).
+Eval vm_compute in ("<<<M4316>>>" ++ check (runes_of_ascii "packet matchKey {
+    @calculatedFrom(""" ++ [28040; 24687]%N ++ runes_of_ascii """)
+    @lengthOf(lengthOf)
+    @calculatedFrom(""" ++ [28040; 24687]%N ++ runes_of_ascii """)
+    match trueish as options1 {
+        42 : matchKey,
+    },// " ++ [128512]%N ++ runes_of_ascii " emoji
+    i64 u8x,
+}
+
+MetaData float {
+    options1 u8x,
+    options1 x,
+    string u `it's`,
+    pack Header `u8 x,`,
+    char[] i64_,
+}
+
+options {
+}
+
+packet o {
+}//
+
+MetaData MetaDataX {
+}")).
+Eval vm_compute in ("<<<M622>>>" ++ check (runes_of_ascii "packet Pad
+    { @lengthOf(MetaDataX )
+roots a1	, }packet
+tag { uint8 packetx ,@calculatedFrom( """") @rightPad( )string Z9_ @calculatedFrom(""x y""
+/// triple
+// " ++ [27880; 37322]%N ++ runes_of_ascii "
+)`two words`
+,f32
+falsey
+    // packet A { u8 x, }
+    , }
+    //
+    root packet
+Pad { len Z9_
+, // " ++ [27880; 37322]%N ++ runes_of_ascii "
+@lengthOf( o
+    ) u32
+    x
+, A	`// not a comment` , // a // b
+}
+")).
+Eval vm_compute in ("<<<M1857>>>" ++ check (runes_of_ascii "MetaData MetaData
+    u { }  options {
+// c
+// @lengthOf(
+float = int8 ;rootA =false ; As =	int16 // `tick` ""quote"" 'q'
+repeatCount
+    // trailing space 
+    =
+    int16
+; u8x =
+    //	t
+    '\x00' ; } options	{
+    repeatCount
+= 0
+u128
+    //
+    = false ; i64_
+// trailing space 
+// `tick` ""quote"" 'q'
+= '0' ; //	t
+}
+")).
+Eval vm_compute in ("<<<M2023>>>" ++ check (runes_of_ascii "MetaData
+    u { }  options {
+// c
+// @lengthOf(
+float = int8 ;rootA =false ; As =	int16 // `tick` ""quote"" 'q'
+repeatCount
+    // trailing space 
+    =
+    int16
+; u8x =
+    //	t
+    '\x00' ; } options	{
+    repeatCount
+= 0
+u128
+    //
+    = MetaDataX ; i64_
+// trailing space 
+// `tick` ""quote"" 'q'
+= '0' ; //	t
+}
+")).
+Eval vm_compute in ("<<<M2008>>>" ++ check (runes_of_ascii "MetaData
+    u { }  options {
+// c
+// @lengthOf(
+float = int8 ;rootA =false ; As =	int16 // `tick` ""quote"" 'q'
+repeatCount
+    // trailing space 
+    =
+    int16
+; u8x =
+    //	t
+    '\x00' ; } options	{
+    repeatCount
+= f64
+u128
+    //
+    = false ; i64_
+// trailing space 
+// `tick` ""quote"" 'q'
+= '0' ; //	t
+}
+")).
+Eval vm_compute in ("<<<M1858>>>" ++ check (runes_of_ascii "u
+    MetaData { }  options {
+// c
+// @lengthOf(
+float = int8 ;rootA =false ; As =	int16 // `tick` ""quote"" 'q'
+repeatCount
+    // trailing space 
+    =
+    int16
+; u8x =
+    //	t
+    '\x00' ; } options	{
+    repeatCount
+= 0
+u128
+    //
+    = false ; i64_
+// trailing space 
+// `tick` ""quote"" 'q'
+= '0' ; //	t
+}
+")).
+Eval vm_compute in ("<<<M2002>>>" ++ check (runes_of_ascii "MetaData
+    u { }  options {
+// c
+// @lengthOf(
+float = int8 ;rootA =false ; As =	int16 // `tick` ""quote"" 'q'
+repeatCount
+    // trailing space 
+    =
+    int16
+; u8x =
+    //	t
+    '\x00' ; } options	{
+    repeatCount
+0 =
+u128
+    //
+    = false ; i64_
+// trailing space 
+// `tick` ""quote"" 'q'
+= '0' ; //	t
+}
+")).
+Eval vm_compute in ("<<<M2000>>>" ++ check (runes_of_ascii "MetaData
+    u { }  options {
+// c
+// @lengthOf(
+float = int8 ;rootA =false ; As =	int16 // `tick` ""quote"" 'q'
+repeatCount
+    // trailing space 
+    =
+    int16
+; u8x =
+    //	t
+    '\x00' ; } options	{
+    repeatCount
+ 0
+u128
+    //
+    = false ; i64_
+// trailing space 
+// `tick` ""quote"" 'q'
+= '0' ; //	t
+}
+")).
+Eval vm_compute in ("<<<M551>>>" ++ check (runes_of_ascii "packet options1 {
+    @calculatedFrom(// trailing space 
+""" ++ [233]%N ++ runes_of_ascii "t" ++ [233]%N ++ runes_of_ascii """
+)
+@calculatedFrom(""packet"") repeat
+int16
+calculatedFrom
+,
+    @rightPad( ) Z9_
+// `tick` ""quote"" 'q'
+// `tick` ""quote"" 'q'
+@calculatedFrom( """ ++ [128512]%N ++ runes_of_ascii """ )
+`line1
+line2` , int64
+    rootA
+,
+_x@calculatedFrom( ""a	b""
+// `tick` ""quote"" 'q'
+//	t
+)
+    ,	}
+")).
+Eval vm_compute in ("<<<M435>>>" ++ check (runes_of_ascii "// " ++ [27880; 37322]%N ++ runes_of_ascii "
+packet// @lengthOf(
+roots {	int64 Packet ,}
+/// triple
+// c
+packet trueish
+    { @calculatedFrom(
+    """" )  msg_type @calculatedFrom(
+    ""a\""b"")  ,
+    // " ++ [27880; 37322]%N ++ runes_of_ascii "
+    u16 trueish
+, f32a	, uint64 //x
+lengthOf
+    @lengthOf( Foo
+) , }options { repeatCount = true ; x = false
+    chars=zchar[ 007]
+;}")).
+Eval vm_compute in ("<<<M3265>>>" ++ check (runes_of_ascii "// top
+MetaData
+    // c0
+float
+    // c1
+{
+    // c2
+float64
+    // c3
+charz
+    // c4
+`
+`
+    // c5
+,
+    // c6
+}
+    // c7
+root
+    // c8
+packet
+    // c9
+chars
+    // c10
+{
+    // c11
+@rightPad
+    // c12
+(
+    // c13
+'0'
+    // c14
+)
+    // c15
+Foo
+    // c16
+,
+    // c17
+}
+    // c18
+")).
+Eval vm_compute in ("<<<M556>>>" ++ check (runes_of_ascii "options {
+    uint8x= 3	;
+    crc= 42 Logon  = '\x00' falsey= false }  root
+    packet zchar {int16// trailing space 
+u, } root packet
+Header {@rightPad ( ' ' )@lengthOf( a1 )repeat body, zchar[
+65535 ] string_ // `tick` ""quote"" 'q'
+@lengthOf( MetaDataX ) , // @lengthOf(
+}
+")).
+Eval vm_compute in ("<<<M702>>>" ++ check (runes_of_ascii "packet float { @leftPad (' '
+)
+@calculatedFrom(// `tick` ""quote"" 'q'
+""a\""b"")@calculatedFrom( ""packet""
+) u32 msg_type
+//
+// a // b
+`" ++ [233]%N ++ runes_of_ascii "`	,
+@tag( 00 ) @rightPad (' ' )
+    repeat chars
+metadata// " ++ [128512]%N ++ runes_of_ascii " emoji
+,@rightPad ('0'	) tag string_	, repeat f64 int `u8 x,`  , }
+// c
+")).
+Eval vm_compute in ("<<<M73>>>" ++ check (runes_of_ascii "packet MetaDataX
+{ @calculatedFrom(
+    ""CRC32""
+    ) @tag(	255 //
+) zchar[ 007
+// c
+// trailing space 
+] Logon , } MetaData
+// " ++ [27880; 37322]%N ++ runes_of_ascii "
+// `tick` ""quote"" 'q'
+u8x{ char[0123456789
+    // @lengthOf(
+    ]	Foo , i64 x_y_z , o msg_type
+    , }
+// packet A { u8 x, }
+")).
+Eval vm_compute in ("<<<M1575>>>" ++ check (runes_of_ascii "packet
+//	t
+// trailing space 
+_x {
+// packet A { u8 x, }
+// c
+char[
+3
+    ] u8x @lengthOf(
+u8x ) , @calculatedFrom(""" ++ [128512]%N ++ runes_of_ascii """ // @lengthOf(
+)
+i16	Foo
+@lengthOf(	@lengthOf(
+    )`doc`	, repeat	i64 metadata , @lengthOf( string_
+) i8 // c
+u  `line1
+line2`	,
+}
+")).
+Eval vm_compute in ("<<<M1649>>>" ++ check (runes_of_ascii "packet
+//	t
+// trailing space 
+_x {
+// packet A { u8 x, }
+// c
+char[
+3
+    ] u8x @lengthOf(
+u8x ) , @calculatedFrom(""" ++ [128512]%N ++ runes_of_ascii """ // @lengthOf(
+)
+i16	Foo
+@lengthOf(	string_
+    )`doc`	, repeat	i64 metadata , @lengthOf( string_
+) i8 // c
+u  `line1
+line2`	,
+as
+")).
+Eval vm_compute in ("<<<M1569>>>" ++ check (runes_of_ascii "packet
+//	t
+// trailing space 
+_x {
+// packet A { u8 x, }
+// c
+char[
+3
+    ] u8x @lengthOf(
+u8x ) , @calculatedFrom(""" ++ [128512]%N ++ runes_of_ascii """ // @lengthOf(
+)
+i16	Foo
+string_	@lengthOf(
+    )`doc`	, repeat	i64 metadata , @lengthOf( string_
+) i8 // c
+u  `line1
+line2`	,
+}
+")).
+Eval vm_compute in ("<<<M1587>>>" ++ check (runes_of_ascii "packet
+//	t
+// trailing space 
+_x {
+// packet A { u8 x, }
+// c
+char[
+3
+    ] u8x @lengthOf(
+u8x ) , @calculatedFrom(""" ++ [128512]%N ++ runes_of_ascii """ // @lengthOf(
+)
+i16	Foo
+@lengthOf(	string_
+    )`doc`	 repeat	i64 metadata , @lengthOf( string_
+) i8 // c
+u  `line1
+line2`	,
+}
+")).
+Eval vm_compute in ("<<<M848>>>" ++ check (runes_of_ascii "packet// `tick` ""quote"" 'q'
+zchar { // c
+} MetaData Header {Z9_ // a // b
+pack , } MetaData asx { //	t
+u Header
+    ,
+    zchar[ 3
+    ]o
+,
+    As repeatCount
+`" ++ [28040; 24687; 31867; 22411]%N ++ runes_of_ascii "`	,
+//	t
+//	t
+rootA
+tag //x
+`u8 x,`
+    , float64 options1 , char[] uint8x , }
+")).
+Eval vm_compute in ("<<<M3266>>>" ++ check (runes_of_ascii "// top
+MetaData // c0a
+  // c0b
+float // c1
+{
+    // c2
+float64 // c3
+charz // c4a
+  // c4b
+`
+`
+    // c5
+,
+    // c6
+} root // c8
+packet // c9a
+  // c9b
+chars
+    // c10
+{ @rightPad ( '0' // c14
+)
+    // c15
+Foo
+    // c16
+,
+    // c17
+} ")).
+Eval vm_compute in ("<<<M301>>>" ++ check (runes_of_ascii "  MetaData // c
+crc
+{ i64 matchKey,
+    _x msg_type//
+, zchar zchar
+    ,
+    MetaDataX	matchKey
+    `a\` ,
+    u32 Header // " ++ [128512]%N ++ runes_of_ascii " emoji
+, } MetaData
+_x{
+    } root packet
+    calculatedFrom
+// `tick` ""quote"" 'q'
+// @lengthOf(
+{	}
+")).
+Eval vm_compute in ("<<<M2004>>>" ++ check (runes_of_ascii "MetaData
+    u { }  options {
+// c
+// @lengthOf(
+float = int8 ;rootA =false ; As =	int16 // `tick` ""quote"" 'q'
+repeatCount
+    // trailing space 
+    =
+    int16
+; u8x =
+    //	t
+    '\x00' ; } options	{
+    repeatCount")).
+Eval vm_compute in ("<<<M203>>>" ++ check (runes_of_ascii "packet u128  { @calculatedFrom(
+""a	b"" ) repeat  uint8x u128
+`line1
+line2`  , }
+    packet string_ { @calculatedFrom(
+// `tick` ""quote"" 'q'
+// packet A { u8 x, }
+""" ++ [128512]%N ++ runes_of_ascii """ )
+uint8 Pad
+    @lengthOf(
+    o )
+`{ , }`, }")).
+Eval vm_compute in ("<<<M1777>>>" ++ check (runes_of_ascii "options { trueish = ""`tick`"" ; string_= """ ++ [233]%N ++ runes_of_ascii "t" ++ [233]%N ++ runes_of_ascii """
+    // c
+    } root
+    packet body { stringy @calculatedFrom(
+""a	b"" ) `line1
+line2` , }
+packet packet Logon {
+    @leftPad(
+    ' ' ) //	t
+u16 string_ `u8 x,` ,
+}
+")).
+Eval vm_compute in ("<<<M4288>>>" ++ check (runes_of_ascii "root
+packet  Z9_ 
+{	repeatCount `a\`  ,
+
+    char[255 ]
+	Pad 
+`" ++ [28040; 24687; 31867; 22411]%N ++ runes_of_ascii "` 
+    // " ++ [27880; 37322]%N ++ runes_of_ascii "
+
+	,
+
+    char[ 	 // c
+  0	]
+    calculatedFrom
+`it's`
+	,MetaDataX msg_type
+`line1
+line2`	,  }
+
+    // packet A { u8 x, }
+")).
 Eval vm_compute in ("<<<M1789>>>" ++ check (runes_of_ascii "options { trueish = ""`tick`"" ; string_= """ ++ [233]%N ++ runes_of_ascii "t" ++ [233]%N ++ runes_of_ascii """
     // c
     } root
@@ -2108,22 +1906,22 @@ packet Logon {
 u16 string_ `u8 x,` ,
 }
 ")).
-Eval vm_compute in ("<<<M1796>>>" ++ check (runes_of_ascii "options { trueish = ""`tick`"" ; string_= """ ++ [233]%N ++ runes_of_ascii "t" ++ [233]%N ++ runes_of_ascii """
+Eval vm_compute in ("<<<M1786>>>" ++ check (runes_of_ascii "options { trueish = ""`tick`"" ; string_= """ ++ [233]%N ++ runes_of_ascii "t" ++ [233]%N ++ runes_of_ascii """
     // c
     } root
     packet body { stringy @calculatedFrom(
 ""a	b"" ) `line1
 line2` , }
-packet Logon {
-    @leftPad
+packet Logon 
+    @leftPad(
     ' ' ) //	t
 u16 string_ `u8 x,` ,
 }
 ")).
-Eval vm_compute in ("<<<M1726>>>" ++ check (runes_of_ascii "options { trueish = ""`tick`"" ; string_= """ ++ [233]%N ++ runes_of_ascii "t" ++ [233]%N ++ runes_of_ascii """
+Eval vm_compute in ("<<<M1684>>>" ++ check (runes_of_ascii "options { = = ""`tick`"" ; string_= """ ++ [233]%N ++ runes_of_ascii "t" ++ [233]%N ++ runes_of_ascii """
     // c
     } root
-     body { stringy @calculatedFrom(
+    packet body { stringy @calculatedFrom(
 ""a	b"" ) `line1
 line2` , }
 packet Logon {
@@ -2132,50 +1930,65 @@ packet Logon {
 u16 string_ `u8 x,` ,
 }
 ")).
-Eval vm_compute in ("<<<M162>>>" ++ check (runes_of_ascii "MetaData
-    lengthOf
-{
-char[0123456789] calculatedFrom ,
-char[ 0
+Eval vm_compute in ("<<<M3887>>>" ++ check (runes_of_ascii "
+
+  MetaData msg_type{
+	Packet
+	// @lengthOf(
+  // trailing space 
+	int	, 
+char[
+3
 ]
-options1
+Foo
+	`// not a comment` 
+	    // `tick` ""quote"" 'q'
+, zchar[ 
+7 
+] uint8x
+
     ,
-    } MetaData  repeatCount
-{ // packet A { u8 x, }
-u64 len ,
-    stringy x_y_z `it's` // a // b
-, f32 As ,	}
-")).
-Eval vm_compute in ("<<<M513>>>" ++ check (runes_of_ascii "packet
-u128 {
-f64 chars ``
-, @lengthOf(metadata ) @lengthOf(matchKey
-    )// trailing space 
-@tag(42
-    )a1@lengthOf( MetaDataX ) `
+	leftPad
+crc	`
 ` ,
+}")).
+Eval vm_compute in ("<<<M3694>>>" ++ check (runes_of_ascii "MetaData Header {
+    A float,
 }
-    // c
-    packet f32a	{
-    // " ++ [128512]%N ++ runes_of_ascii " emoji
-    }
-")).
-Eval vm_compute in ("<<<M3389>>>" ++ check (runes_of_ascii "// top
-MetaData // c0
-body // c1
-{ // c2
-i64 // c3
-pack // c4
-`it's` // c5
-, // c6
-} // c7
-packet // c8
-stringy // c9
-{ // c10
-int16 // c11
-calculatedFrom // c12
-, // c13
-} // c14
+
+MetaData Pad {
+    // trailing space 
+    string float `a\`,
+    char[] tag,
+    // packet A { u8 x, }
+    matchKey BodyLength,
+    char[65535] Header,
+}")).
+Eval vm_compute in ("<<<M3684>>>" ++ check (runes_of_ascii "options{
+
+_x
+
+= true 
+} options{
+o
+    =  /// triple
+    false
+	;chars = ""\n""
+}  root packet
+
+Pad
+        /// triple
+	// packet A { u8 x, }
+
+{
+
+chars
+
+chars 
+  // a // b
+
+  , }
+
 ")).
 Eval vm_compute in ("<<<M1290>>>" ++ check (runes_of_ascii "packet //	t
 u8x
@@ -2188,61 +2001,30 @@ u8x
     }
 // @lengthOf(
 ")).
-Eval vm_compute in ("<<<M323>>>" ++ check (runes_of_ascii "MetaData As  {
-// " ++ [128512]%N ++ runes_of_ascii " emoji
-// @lengthOf(
-a1 Pad , zchar[ 00 ] // `tick` ""quote"" 'q'
-body`// not a comment` ,
-crc uint8x `// not a comment` ,uint32
-packetx ``
-    ,}
-")).
-Eval vm_compute in ("<<<M318>>>" ++ check (runes_of_ascii "
-MetaData roots {
-As  asx , char[1 ] roots
-,
+Eval vm_compute in ("<<<M4078>>>" ++ check (runes_of_ascii "MetaData Foo {
+    zchar[10] i8i8,
+    zchar[1] zchar,
+    zchar lengthOf,
+    string metadata `tab	here`,
+    matchKey x,/// triple
+    f32 leftPad `it's`,
     // c
-    char[
-    007]
-    matchKey ,/// triple
-zchar[ 1	] len ,x_y_z
-// trailing space 
-/// triple
-u128 , }")).
-Eval vm_compute in ("<<<M2135>>>" ++ check (runes_of_ascii "options{
-_x
-= true
-} options
-{ o	= /// triple
-false
-    ; chars chars
-= ""\n"" } root packet	Pad
-/// triple
-// packet A { u8 x, }
-{	chars
-    // a // b
-    ,}")).
-Eval vm_compute in ("<<<M2320>>>" ++ check (runes_of_ascii "// c
+}")).
+Eval vm_compute in ("<<<M1007>>>" ++ check (runes_of_ascii "options  { x_y_z
+= uint32
+    ; x
+= false ;len
+= 0//
+; }
+root packet trueish {
+    // `tick` ""quote"" 'q'
+    @tag( 42// packet A { u8 x, }
+) matchKey string_,
+}
+")).
+Eval vm_compute in ("<<<M2387>>>" ++ check (runes_of_ascii "// c
 packet x { @lengthOf( metadata ) repeat lengthOf
-,a1{
-trueish	, ,// c
-repeat//	t
-MetaDataX , } , zchar[
-    42	] rootA // `tick` ""quote"" 'q'
-,
-    }
-")).
-Eval vm_compute in ("<<<M1242>>>" ++ check (runes_of_ascii "packet Z9_{
-// trailing space 
-// " ++ [128512]%N ++ runes_of_ascii " emoji
-@calculatedFrom( ""1"" )// packet A { u8 x, }
-matchKey @calculatedFrom(
-""" ++ [128512]%N ++ runes_of_ascii """ ) `tab	here` ,}
-// packet A { u8 x, }
-")).
-Eval vm_compute in ("<<<M2407>>>" ++ check (runes_of_ascii "// c
-packet x { @lengthOf( metadata repeat ) lengthOf
-,a1{
+,a1 false
 trueish	,// c
 repeat//	t
 MetaDataX , } , zchar[
@@ -2250,371 +2032,431 @@ MetaDataX , } , zchar[
 ,
     }
 ")).
-Eval vm_compute in ("<<<M2078>>>" ++ check (runes_of_ascii "{options
-_x
-= true
-} options
-{ o	= /// triple
-false
-    ; chars
-= ""\n"" } root packet	Pad
-/// triple
-// packet A { u8 x, }
-{	chars
-    // a // b
-    ,}")).
-Eval vm_compute in ("<<<M2087>>>" ++ check (runes_of_ascii "options{
-]
-= true
-} options
-{ o	= /// triple
-false
-    ; chars
-= ""\n"" } root packet	Pad
-/// triple
-// packet A { u8 x, }
-{	chars
-    // a // b
-    ,}")).
-Eval vm_compute in ("<<<M2205>>>" ++ check (runes_of_ascii "options{
-_x
-= true
-} options
-{ o	= /// triple
-false
-    ; " ++ [21517; 23383]%N ++ runes_of_ascii "
-= ""\n"" } root packet	Pad
-/// triple
-// packet A { u8 x, }
-{	chars
-    // a // b
-    ,}")).
-Eval vm_compute in ("<<<M2403>>>" ++ check (runes_of_ascii "// c
+Eval vm_compute in ("<<<M548>>>" ++ check (runes_of_ascii "
+packet
+uint8x{
+    @tag( 65535	)
+char[
+    //
+    7 ] trueish
+@lengthOf( options1)
+    `{ , }` ,  } MetaData// @lengthOf(
+rootA { } root
+packet leftPad {}")).
+Eval vm_compute in ("<<<M2410>>>" ++ check (runes_of_ascii "// c
 packet x { @lengthOf( metadata ) repeat lengthOf
 ,a1{
-	,// c
+trueish	?,// c
 repeat//	t
 MetaDataX , } , zchar[
     42	] rootA // `tick` ""quote"" 'q'
 ,
     }
 ")).
-Eval vm_compute in ("<<<M708>>>" ++ check (runes_of_ascii "packet  As
-{ char[] metadata
-`doc`
-, } root packet	int
-{ // packet A { u8 x, }
-zchar[ // @lengthOf(
-007 ] leftPad ,
-} // `tick` ""quote"" 'q'")).
-Eval vm_compute in ("<<<M1651>>>" ++ check (runes_of_ascii "packet
+Eval vm_compute in ("<<<M2380>>>" ++ check (runes_of_ascii "// c
+packet x { @lengthOf( metadata ) repeat lengthOf
+,a1{
+trueish	,// c
+repeat//	t
+MetaDataX , , } zchar[
+    42	] rootA // `tick` ""quote"" 'q'
+,
+    }
+")).
+Eval vm_compute in ("<<<M4449>>>" ++ check (runes_of_ascii "packet tag {
+    BodyLength @lengthOf(options1),
+}
+
+options {
+    trueish = ""a\\""
+    matchKey = 0123456789;
+    BodyLength = '\x00'
+    charz = """ ++ [233]%N ++ runes_of_ascii "t" ++ [233]%N ++ runes_of_ascii """;
+}")).
+Eval vm_compute in ("<<<M2359>>>" ++ check (runes_of_ascii "// c
+packet x { @lengthOf( metadata ) repeat lengthOf
+,a1{
+trueish	,// c
+repeat//	t
+MetaDataX , } , zchar[
+    42	] u64 // `tick` ""quote"" 'q'
+,
+    }
+")).
+Eval vm_compute in ("<<<M2167>>>" ++ check (runes_of_ascii "options{
+_x
+= true
+} options
+{ o	= /// triple
+false
+    ; chars
+= ""\n"" } root packet	=
+/// triple
+// packet A { u8 x, }
+{	chars
+    // a // b
+    ,}")).
+Eval vm_compute in ("<<<M4463>>>" ++ check (runes_of_ascii "
+root	packet
+
+matchKey 
+{ zchar[  3
+	]
+
+pack@calculatedFrom( ""a	b"" ) `doc` 
+,
+    }options {}
+
+    MetaData
+A
+
+    {
+
+int8 msg_type
+,// c
+  }
+
+")).
+Eval vm_compute in ("<<<M4038>>>" ++ check (runes_of_ascii "// top
+MetaData float {
+    // c2
+    float64 charz `
+    `,
+    // c6
+}
+
+root packet chars {
+    @rightPad('0')
+    // c15
+    Foo,
+    // c17
+}")).
+Eval vm_compute in ("<<<M4502>>>" ++ check (runes_of_ascii "  packet 
+A{
+match k as
+    n { 
+[ 
+1 ,22
+
+    , ""c c"" ,
+
+4  , 
+5
+    , 
+""f""
+
+, 7,
+8
+,
+    ""i"" ,10 ,
+
+    11 
+] : B
+,
+
+2	:
+	C
+    }
+	,
+}")).
+Eval vm_compute in ("<<<M564>>>" ++ check (runes_of_ascii "MetaData options1  { lengthOf As , char[ 255
+]crc
+    , char[] leftPad , As
+//	t
+//
+leftPad , uint16 u128 , f32 //
+x `{ , }` ,
+}
+//	t
+")).
+Eval vm_compute in ("<<<M298>>>" ++ check (runes_of_ascii "MetaData  metadata
+{	char[65535]	x ,
+    // c
+    char[]
+    u128, pack Z9_ , }
+    packet // " ++ [27880; 37322]%N ++ runes_of_ascii "
+a1{ repeat float repeatCount, }
+")).
+Eval vm_compute in ("<<<M4353>>>" ++ check (runes_of_ascii "MetaData metadata {
+    char[65535] x,
+    // c
+    char[] u128,
+    pack Z9_,
+}
+
+packet a1 {
+    repeat float repeatCount,
+}")).
+Eval vm_compute in ("<<<M3311>>>" ++ check (runes_of_ascii "
+// c
+root packet matchKey { zchar[ 3 ] pack @calculatedFrom( ""a	b"" ) `doc` , } options { } MetaData A { int8 msg_type , }")).
+Eval vm_compute in ("<<<M3330>>>" ++ check (runes_of_ascii "root packet matchKey { zchar[ 3 ] pack @calculatedFrom( ""a	b"" // c
+) `doc` , } options { } MetaData A { int8 msg_type , }")).
+Eval vm_compute in ("<<<M70>>>" ++ check (runes_of_ascii "
+options {  MetaDataX= ""\" ++ [233]%N ++ runes_of_ascii """ }options {
+// @lengthOf(
+//	t
+Logon = ""1""
+    x_y_z = 65535  } MetaData
+    //	t
+    u8x {}
+")).
+Eval vm_compute in ("<<<M3054>>>" ++ check (runes_of_ascii "packet A {
+    match k as n {
+        ""x\
+y"" : B,
+        [""x\
+y"", 1] : C,
+        [1,2,3,4,5,""x\
+y""] : D,
+    },
+}")).
+Eval vm_compute in ("<<<M307>>>" ++ check (runes_of_ascii "
+packet Logon // " ++ [27880; 37322]%N ++ runes_of_ascii "
+{f32 _x
+,} MetaData u8x {float32 leftPad, tag
+    leftPad `say ""hi""`
+    ,i16 tag `say ""hi""`,}
+")).
+Eval vm_compute in ("<<<M4507>>>" ++ check (runes_of_ascii "packet metadata {
+    // c
+    Logon {
+        A `" ++ [28040; 24687; 31867; 22411]%N ++ runes_of_ascii "`,
+        tag o,
+    },
+    zchar len `// not a comment`,
+}")).
+Eval vm_compute in ("<<<M1104>>>" ++ check (runes_of_ascii "root //	t
+packet roots { // " ++ [27880; 37322]%N ++ runes_of_ascii "
+} packet
+    matchKey {
+@calculatedFrom( ""a\""b"" )char[]tag // @lengthOf(
+, }
+")).
+Eval vm_compute in ("<<<M2985>>>" ++ check (runes_of_ascii "packet A {
+  match k as n {
+    [""a"", ""bb"", 007, ""d"", ""e"", 66, ""g"", ""h"", 9, ""j"", ""k""] : B,
+    2 : C
+  },
+}")).
+Eval vm_compute in ("<<<M3906>>>" ++ check (runes_of_ascii "
+packet metadata{	Logon {
+
+    A
+
+`" ++ [28040; 24687; 31867; 22411]%N ++ runes_of_ascii "`
+,
+	tag	o , },zchar len
+
+`// not a comment`
+    , // c
+    }
+
+")).
+Eval vm_compute in ("<<<M4419>>>" ++ check (runes_of_ascii "options {
+    _x = true
+}
+
+options {
+    o = false;
+    chars = ""\n""
+}
+
+root packet Pad {
+    chars,
+}")).
+Eval vm_compute in ("<<<M4215>>>" ++ check (runes_of_ascii "options {
+    _x = true
+}
+
+options {
+    o = u64;
+    chars = ""\n""
+}
+
+root packet Pad {
+    chars,
+}")).
+Eval vm_compute in ("<<<M3016>>>" ++ check (runes_of_ascii "packet A {
+    Inner {
+        u8 x `
+`,
+        Deep {
+            u8 y `
+`,
+        },
+    },
+}")).
+Eval vm_compute in ("<<<M2327>>>" ++ check (runes_of_ascii "// c
+packet x { @lengthOf( metadata ) repeat lengthOf
+,a1{
+trueish	,// c
+repeat//	t
+MetaDataX")).
+Eval vm_compute in ("<<<M2925>>>" ++ check (runes_of_ascii "packet A {
+  match k as n {
+    [""a"", ""bb"", ""c c"", ""d"", ""e"", ""f"", ""g""] : B,
+    2 : C
+  },
+}")).
+Eval vm_compute in ("<<<M2942>>>" ++ check (runes_of_ascii "packet A {
+  match k as n {
+    [""a"", 22, ""c c"", 4, ""e"", 66, ""g"", 8] : B,
+    2 : C
+  },
+}")).
+Eval vm_compute in ("<<<M3278>>>" ++ check (runes_of_ascii "MetaData float { float64 charz
+// c
+`
+` , } root packet chars { @rightPad ( '0' ) Foo , }")).
+Eval vm_compute in ("<<<M3489>>>" ++ check (runes_of_ascii "packet chars { // c
+} packet MetaDataX { @tag( 42 ) i16 string_ , repeat x `say ""hi""` , }")).
+Eval vm_compute in ("<<<M4023>>>" ++ check (runes_of_ascii "MetaData	body  { i64
+pack `it's` , } packet
+	stringy{ 	 // c
+int16  calculatedFrom
+	, } ")).
+Eval vm_compute in ("<<<M2295>>>" ++ check (runes_of_ascii "options
+{ } options { BodyLength= u16 Header= f64 ; u128 =
+    true
+    ; } //' a // b")).
+Eval vm_compute in ("<<<M2218>>>" ++ check (runes_of_ascii "options
+{ options } { BodyLength= u16 Header= f64 ; u128 =
+    true
+    ; } // a // b")).
+Eval vm_compute in ("<<<M3229>>>" ++ check (runes_of_ascii "packet metadata { Logon { A `" ++ [28040; 24687; 31867; 22411]%N ++ runes_of_ascii "` , tag // c
+o , } , zchar len `// not a comment` , }")).
+Eval vm_compute in ("<<<M2261>>>" ++ check (runes_of_ascii "options
+{ } options { BodyLength= u16 Header= f64  u128 =
+    true
+    ; } // a // b")).
+Eval vm_compute in ("<<<M3452>>>" ++ check (runes_of_ascii "packet o { repeat Logon uint8x , } options { asx =
+// c
+zchar[ 3 ] stringy = '\x00' }")).
+Eval vm_compute in ("<<<M270>>>" ++ check (runes_of_ascii "MetaData _x{ } packet calculatedFrom {
+}MetaData
+_x	{i32
+    body
+    , uint8 x , }")).
+Eval vm_compute in ("<<<M3395>>>" ++ check (runes_of_ascii "MetaData
+// c
+body { i64 pack `it's` , } packet stringy { int16 calculatedFrom , }")).
+Eval vm_compute in ("<<<M4589>>>" ++ check (runes_of_ascii "packet zchar {
+    @lengthOf(i8i8)
+    int16 msg_type @lengthOf(As) `
+        `,
+}")).
+Eval vm_compute in ("<<<M1456>>>" ++ check (runes_of_ascii "
+packet
+    falsey { Header@calculatedFrom(""packet""  ) , char[
+    0123456789 ]")).
+Eval vm_compute in ("<<<M1470>>>" ++ check (runes_of_ascii "
+packet
+    falsey { Header@calculatedFrom(""packet""  ) , char[
+    012345678")).
+Eval vm_compute in ("<<<M1291>>>" ++ check (runes_of_ascii "
+root packet charz
+    { @rightPad ( '0' )
+_x	@lengthOf( asx
+) `" ++ [233]%N ++ runes_of_ascii "`
+, }
+")).
+Eval vm_compute in ("<<<M882>>>" ++ check (runes_of_ascii "packet// " ++ [27880; 37322]%N ++ runes_of_ascii "
+pack {
+    //	t
+    repeat zchar As
+    , i16 roots ,
+    }")).
+Eval vm_compute in ("<<<M1511>>>" ++ check (runes_of_ascii "packet
 //	t
 // trailing space 
 _x {
 // packet A { u8 x, }
 // c
-char[
-3
-    ] u8x @lengthOf(
-u8x ) , @calculatedFrom(""" ++ [128512]%N ++ runes_of_ascii """ // @lengthOf(
-)
-i1")).
-Eval vm_compute in ("<<<M3554>>>" ++ check (runes_of_ascii "options {
-    LittleEndian = true;
-}
-packet B {
-    u8 a,
-    string s,
-}
-root packet P {
-    u16 L @lengthOf(B),
-    B,
-    u8 t,
-}
+char[")).
+Eval vm_compute in ("<<<M3797>>>" ++ check (runes_of_ascii "MetaData pack {
+    // " ++ [27880; 37322]%N ++ runes_of_ascii "
+    string float,
+    char[] options1,
+}")).
+Eval vm_compute in ("<<<M2293>>>" ++ check (runes_of_ascii "options
+{ } options { BodyLength= u16 Header= f64 ; u128 =
+   ")).
+Eval vm_compute in ("<<<M2909>>>" ++ check (runes_of_ascii "packet A { Inner { match k as n { [1,22,007,4,5] : B, }, }, }")).
+Eval vm_compute in ("<<<M1295>>>" ++ check (runes_of_ascii "options { matchKey
+= 0 Header =
+// " ++ [128512]%N ++ runes_of_ascii " emoji
+// c
+""CRC32"" }
 ")).
-Eval vm_compute in ("<<<M828>>>" ++ check (runes_of_ascii "packet stringy
-{
-repeat
-    roots  {
-    u64 pack
-`doc` , char[ 7 ] Z9_@calculatedFrom(""abc"" )
-`` , zchar lengthOf  `
-` ,
-}
-, }")).
-Eval vm_compute in ("<<<M1413>>>" ++ check (runes_of_ascii "
-packet
-    falsey { Header Header@calculatedFrom(""packet""  ) , char[
-    0123456789 ] packetx
-    , } // `tick` ""quote"" 'q'")).
-Eval vm_compute in ("<<<M3829>>>" ++ check (runes_of_ascii "  packet o  // c
-	  {  repeat  Logon	uint8x
-,
-    }
-options{
-	asx
-    =  zchar[
-3 
-]
-stringy
+Eval vm_compute in ("<<<M3386>>>" ++ check (runes_of_ascii "packet x { @rightPad ( ) repeat roots Logon `doc` ,
+// c
+}")).
+Eval vm_compute in ("<<<M444>>>" ++ check (runes_of_ascii "// trailing space 
+options{	tag =""1""	; } // @lengthOf(")).
+Eval vm_compute in ("<<<M1215>>>" ++ check (runes_of_ascii "root packet calculatedFrom { char[] trueish `
+` ,}
+")).
+Eval vm_compute in ("<<<M4147>>>" ++ check (runes_of_ascii "root packet 
+u128
 
-    = 
-'\x00'
+{ chars `it's`	, 
+  // c
+}
+")).
+Eval vm_compute in ("<<<M177>>>" ++ check (runes_of_ascii "root packet
+repeatCount{ } // trailing space ")).
+Eval vm_compute in ("<<<M2602>>>" ++ check (runes_of_ascii "packet A { B { match k as n { 1 : C }, }, }")).
+Eval vm_compute in ("<<<M3204>>>" ++ check (runes_of_ascii "root packet u128 { chars `it's` , }
+// c
+")).
+Eval vm_compute in ("<<<M4200>>>" ++ check (runes_of_ascii "MetaData f32a {
+    char[42] zchar,//x
+}")).
+Eval vm_compute in ("<<<M2615>>>" ++ check (runes_of_ascii "packet A { match as as n { 1 : B }, }")).
+Eval vm_compute in ("<<<M789>>>" ++ check (runes_of_ascii "root packet MetaDataX {	} // a // b")).
+Eval vm_compute in ("<<<M2768>>>" ++ check (runes_of_ascii "cbXYPX~e2)CI,UYRj(FHGR'\b#6AQ*Q<F\")).
+Eval vm_compute in ("<<<M2123>>>" ++ check (runes_of_ascii "options{
+_x
+= true
+} options
+{ o")).
+Eval vm_compute in ("<<<M4538>>>" ++ check (runes_of_ascii "options {
+    zchar = '\x00';
+}")).
+Eval vm_compute in ("<<<M3947>>>" ++ check (runes_of_ascii "
 
-    }")).
-Eval vm_compute in ("<<<M3336>>>" ++ check (runes_of_ascii "root packet matchKey { zchar[ 3 ] pack @calculatedFrom( ""a	b"" ) `doc` , // c
-} options { } MetaData A { int8 msg_type , }")).
-Eval vm_compute in ("<<<M1428>>>" ++ check (runes_of_ascii "
-packet
-    falsey { Header@calculatedFrom(""packet""  ) ) , char[
-    0123456789 ] packetx
-    , } // `tick` ""quote"" 'q'")).
-Eval vm_compute in ("<<<M1404>>>" ++ check (runes_of_ascii "
-packet
-    { falsey Header@calculatedFrom(""packet""  ) , char[
-    0123456789 ] packetx
-    , } // `tick` ""quote"" 'q'")).
-Eval vm_compute in ("<<<M1487>>>" ++ check (runes_of_ascii "
-packet
-    na" ++ [239]%N ++ runes_of_ascii "ve { Header@calculatedFrom(""packet""  ) , char[
-    0123456789 ] packetx
-    , } // `tick` ""quote"" 'q'")).
-Eval vm_compute in ("<<<M1486>>>" ++ check (runes_of_ascii "
-packet
-    falsey { Header@calculatedFrom(""packet""  ) , char[
-    0123456789 ] " ++ [21517; 23383]%N ++ runes_of_ascii "
-    , } // `tick` ""quote"" 'q'")).
-Eval vm_compute in ("<<<M3009>>>" ++ check (runes_of_ascii "packet A {
-    u16 len @lengthOf(body) `a
-b`,
-    u32 crc @calculatedFrom(""CRC32"") `a
-b`,
-    string body,
-}")).
-Eval vm_compute in ("<<<M3046>>>" ++ check (runes_of_ascii "packet A {
-    Inner {
-        u8 x `tab
-	x`,
-        Deep {
-            u8 y `tab
-	x`,
-        },
-    },
-}")).
-Eval vm_compute in ("<<<M3560>>>" ++ check (runes_of_ascii "options {
-    LittleEndian = true;
-}
-root packet P {
-    u16 a,
-    u32 Sum @calculatedFrom(""CRC32""),
-}
+  packet A {}
+	    // c" ++ [8232]%N ++ runes_of_ascii "
+ 
 ")).
-Eval vm_compute in ("<<<M2979>>>" ++ check (runes_of_ascii "packet A {
-  match k as n {
-    [1, ""bb"", 007, ""d"", 5, ""f"", 7, ""h"", 9, ""j"", 11] : B,
-    2 : C
-  },
-}")).
-Eval vm_compute in ("<<<M4525>>>" ++ check (runes_of_ascii "// c
-packet chars {
-}
+Eval vm_compute in ("<<<M118>>>" ++ check (runes_of_ascii "options{
+i64_ = ""`tick`""}
 
-packet MetaDataX {
-    @tag(42)
-    i16 string_,
-    repeat x `say ""hi""`,
-}")).
-Eval vm_compute in ("<<<M2372>>>" ++ check (runes_of_ascii "// c
-packet x { @lengthOf( metadata ) repeat lengthOf
-,a1{
-trueish	,// c
-repeat//	t
-MetaDataX ")).
-Eval vm_compute in ("<<<M2975>>>" ++ check (runes_of_ascii "packet A {
-  match k as n {
-    [1, 22, 007, 4, 5, 66, 7, 8, 9, 10, 11] : B,
-    2 : C
-  },
-}")).
-Eval vm_compute in ("<<<M984>>>" ++ check (runes_of_ascii "options{ string_ = ""CRC32""	; charz =
-'\x00';
-i64_	=' ' i64_ =""a\""b""  ;
-uint8x= """"
-    ;}
 ")).
-Eval vm_compute in ("<<<M3272>>>" ++ check (runes_of_ascii "MetaData float
-// c
-{ float64 charz `
-` , } root packet chars { @rightPad ( '0' ) Foo , }")).
-Eval vm_compute in ("<<<M3304>>>" ++ check (runes_of_ascii "MetaData float { float64 charz `
-` , } root packet chars { @rightPad ( '0' ) Foo ,
-// c
+Eval vm_compute in ("<<<M2594>>>" ++ check (runes_of_ascii "packet A { u8 x @tag(1), }")).
+Eval vm_compute in ("<<<M3260>>>" ++ check (runes_of_ascii "root packet pack { // c
 }")).
-Eval vm_compute in ("<<<M3515>>>" ++ check (runes_of_ascii "packet chars { } packet MetaDataX { @tag( 42 ) i16 string_ , repeat x `say ""hi""` // c
-, }")).
-Eval vm_compute in ("<<<M1264>>>" ++ check (runes_of_ascii "
-MetaData i64_
-{ A crc`crlf
-line`, } options
-// " ++ [27880; 37322]%N ++ runes_of_ascii "
-// @lengthOf(
-{ int =
-    i8
-    }")).
-Eval vm_compute in ("<<<M1195>>>" ++ check (runes_of_ascii "// " ++ [27880; 37322]%N ++ runes_of_ascii "
-MetaData msg_type{} MetaData Pad
-    { int64 Header
-,
-} MetaData matchKey { } //")).
-Eval vm_compute in ("<<<M3222>>>" ++ check (runes_of_ascii "packet metadata { Logon {
-// c
-A `" ++ [28040; 24687; 31867; 22411]%N ++ runes_of_ascii "` , tag o , } , zchar len `// not a comment` , }")).
-Eval vm_compute in ("<<<M561>>>" ++ check (runes_of_ascii "MetaData body {
-string asx
-,
-asx// a // b
-int , u128 a1
-    ,
-int32 len
-    ,
-    }
-")).
-Eval vm_compute in ("<<<M3442>>>" ++ check (runes_of_ascii "packet o { repeat Logon uint8x ,
-// c
-} options { asx = zchar[ 3 ] stringy = '\x00' }")).
-Eval vm_compute in ("<<<M2945>>>" ++ check (runes_of_ascii "packet A {
-  match k as n {
-    [1, 22, ""c c"", 4, 5, ""f"", 7, 8] : B
-    2 : C
-  },
+Eval vm_compute in ("<<<M2580>>>" ++ check (runes_of_ascii "packet A { char[ 3 y, }")).
+Eval vm_compute in ("<<<M2706>>>" ++ check ([65533; 65533; 15; 65533]%N ++ runes_of_ascii "L" ++ [1963; 65533]%N ++ runes_of_ascii "B" ++ [65533; 26]%N ++ runes_of_ascii "h%" ++ [20]%N ++ runes_of_ascii "B" ++ [65533]%N ++ runes_of_ascii "k" ++ [65533]%N ++ runes_of_ascii "4" ++ [65533; 65533; 65533]%N)).
+Eval vm_compute in ("<<<M4591>>>" ++ check (runes_of_ascii "root packet i64_ {
 }")).
-Eval vm_compute in ("<<<M2266>>>" ++ check (runes_of_ascii "options
-{ } options { BodyLength= u16 Header= f64 ;  =
-    true
-    ; } // a // b")).
-Eval vm_compute in ("<<<M3419>>>" ++ check (runes_of_ascii "MetaData body { i64 pack `it's` , } packet stringy { int16 calculatedFrom
-// c
-, }")).
-Eval vm_compute in ("<<<M834>>>" ++ check (runes_of_ascii "  packet //	t
-crc {i32 Z9_
-// packet A { u8 x, }
-// " ++ [27880; 37322]%N ++ runes_of_ascii "
-@lengthOf( Pad ) ``, }
-")).
-Eval vm_compute in ("<<<M1470>>>" ++ check (runes_of_ascii "
-packet
-    falsey { Header@calculatedFrom(""packet""  ) , char[
-    012345678")).
-Eval vm_compute in ("<<<M2692>>>" ++ check (runes_of_ascii "match , char uint64 MetaData @tag( @tag( uint16 [ packet int16 MetaData )")).
-Eval vm_compute in ("<<<M1919>>>" ++ check (runes_of_ascii "MetaData
-    u { }  options {
-// c
-// @lengthOf(
-float = int8 ;rootA =")).
-Eval vm_compute in ("<<<M2885>>>" ++ check (runes_of_ascii "packet A {
-  match k as n {
-    [1, 22, 007, 4] : B
-    2 : C
-  },
+Eval vm_compute in ("<<<M3476>>>" ++ check (runes_of_ascii "MetaData o { // c
 }")).
-Eval vm_compute in ("<<<M1383>>>" ++ check (runes_of_ascii "root packet
-//	t
-/// triple
-calculatedFrom { char[0 ]
-Packet, }
-")).
-Eval vm_compute in ("<<<M2808>>>" ++ check (runes_of_ascii ": char[ uint32 float64 uint32 match as i8 uint32 @lengthOf( ' '")).
-Eval vm_compute in ("<<<M144>>>" ++ check (runes_of_ascii "MetaData Pad{	x_y_z
-    // packet A { u8 x, }
-    T ,
-    }
-")).
-Eval vm_compute in ("<<<M3173>>>" ++ check (runes_of_ascii "packet A { // a
- @tag(1) u8 x, // b
- // c
- @tag(2) u8 y, }")).
-Eval vm_compute in ("<<<M1259>>>" ++ check (runes_of_ascii "packet float //	t
-{ //
+Eval vm_compute in ("<<<M3105>>>" ++ check (runes_of_ascii "packet A {
 }
-MetaData i8i8 {uint8x i8i8,
-}")).
-Eval vm_compute in ("<<<M1894>>>" ++ check (runes_of_ascii "MetaData
-    u { }  options {
-// c
-// @lengthOf(
-float")).
-Eval vm_compute in ("<<<M3047>>>" ++ check (runes_of_ascii "MetaData M {
-    u8 x `tab
-	x`,
-    T t `tab
-	x`,
-}")).
-Eval vm_compute in ("<<<M66>>>" ++ check (runes_of_ascii "// c
-MetaData calculatedFrom {Foo msg_type ,
-}
-")).
-Eval vm_compute in ("<<<M810>>>" ++ check (runes_of_ascii "options
-//	t
-// @lengthOf(
-{
-roots
-=""" ++ [28040; 24687]%N ++ runes_of_ascii """
-; }")).
-Eval vm_compute in ("<<<M1426>>>" ++ check (runes_of_ascii "
-packet
-    falsey { Header@calculatedFrom(")).
-Eval vm_compute in ("<<<M3017>>>" ++ check (runes_of_ascii "MetaData M {
-    u8 x `
-`,
-    T t `
-`,
-}")).
-Eval vm_compute in ("<<<M3524>>>" ++ check (runes_of_ascii "root packet P {
-    char c,
-    u8 x,
-}
-")).
-Eval vm_compute in ("<<<M757>>>" ++ check (runes_of_ascii "MetaData Pad { crc x_y_z`{ , }`,
-} 	 ")).
-Eval vm_compute in ("<<<M71>>>" ++ check (runes_of_ascii "// " ++ [27880; 37322]%N ++ runes_of_ascii "
-packet  matchKey{
-    }
-// c
-")).
-Eval vm_compute in ("<<<M2585>>>" ++ check (runes_of_ascii "packet A { string x @lengthOf(y) }")).
-Eval vm_compute in ("<<<M3813>>>" ++ check (runes_of_ascii "  options
-    { falsey =	false  }")).
-Eval vm_compute in ("<<<M2721>>>" ++ check (runes_of_ascii ";" ++ [65533; 1004; 28; 65533]%N ++ runes_of_ascii "K" ++ [26453]%N ++ runes_of_ascii ":qC" ++ [65533]%N ++ runes_of_ascii "mM" ++ [22; 65533; 65533]%N ++ runes_of_ascii "V" ++ [5; 65533; 17; 65533; 65533]%N ++ runes_of_ascii "	" ++ [65533; 65533; 65533; 65533]%N ++ runes_of_ascii "4" ++ [65533; 22; 65533]%N)).
-Eval vm_compute in ("<<<M3117>>>" ++ check (runes_of_ascii "packet A {
- u8 x `d" ++ [11]%N ++ runes_of_ascii "`, // c" ++ [11]%N ++ runes_of_ascii "
-}")).
-Eval vm_compute in ("<<<M3828>>>" ++ check (runes_of_ascii "  packet A{
-
-}	// a
-	// b
-")).
-Eval vm_compute in ("<<<M2578>>>" ++ check (runes_of_ascii "packet A { u8 x `d` `e`, }")).
-Eval vm_compute in ("<<<M3259>>>" ++ check (runes_of_ascii "root packet pack
-// c
-{ }")).
-Eval vm_compute in ("<<<M2715>>>" ++ check (runes_of_ascii "U;|@OK7+-3OJxNfG`GF-D*L")).
-Eval vm_compute in ("<<<M4334>>>" ++ check (runes_of_ascii "MetaData options1 {
-}")).
-Eval vm_compute in ("<<<M1695>>>" ++ check (runes_of_ascii "options { trueish =")).
-Eval vm_compute in ("<<<M4384>>>" ++ check (runes_of_ascii "packet A { }// c" ++ [8239]%N ++ runes_of_ascii "
-")).
-Eval vm_compute in ("<<<M3110>>>" ++ check (runes_of_ascii "packet A {
-}
-// c" ++ [8287]%N)).
-Eval vm_compute in ("<<<M2685>>>" ++ check (runes_of_ascii "// only a comment")).
+// c" ++ [8239]%N)).
+Eval vm_compute in ("<<<M2658>>>" ++ check (runes_of_ascii "options { a = ; }")).
 Eval vm_compute in ("<<<M2660>>>" ++ check (runes_of_ascii "options { a 1; }")).
-Eval vm_compute in ("<<<M1011>>>" ++ check (runes_of_ascii "packet len {}")).
-Eval vm_compute in ("<<<M2488>>>" ++ check (runes_of_ascii "@lengthOf (")).
-Eval vm_compute in ("<<<M2457>>>" ++ check (runes_of_ascii "optionss")).
-Eval vm_compute in ("<<<M3967>>>" ++ check (runes_of_ascii "  // x
+Eval vm_compute in ("<<<M416>>>" ++ check (runes_of_ascii "
+options { }
 ")).
-Eval vm_compute in ("<<<M2432>>>" ++ check (runes_of_ascii "charz")).
-Eval vm_compute in ("<<<M3134>>>" ++ check (runes_of_ascii "// c" ++ [65279]%N)).
-Eval vm_compute in ("<<<M3663>>>" ++ check (runes_of_ascii "// c")).
-Eval vm_compute in ("<<<M2679>>>" ++ check (runes_of_ascii """s""")).
-Eval vm_compute in ("<<<M2455>>>" ++ check (runes_of_ascii "a")).
+Eval vm_compute in ("<<<M2369>>>" ++ check (runes_of_ascii "// c
+packet")).
+Eval vm_compute in ("<<<M2466>>>" ++ check (runes_of_ascii "metadata")).
+Eval vm_compute in ("<<<M2434>>>" ++ check (runes_of_ascii "zchar[")).
+Eval vm_compute in ("<<<M2474>>>" ++ check (runes_of_ascii "'\x0'")).
+Eval vm_compute in ("<<<M2443>>>" ++ check (runes_of_ascii "uint")).
+Eval vm_compute in ("<<<M2472>>>" ++ check (runes_of_ascii "' '")).
+Eval vm_compute in ("<<<M1001>>>" ++ check (runes_of_ascii "  ")).
+Eval vm_compute in ("<<<M2674>>>" ++ check (runes_of_ascii "}")).
